@@ -1,14 +1,1192 @@
 import VectorModel.Props.MethodExpr
 import VectorModel.Props.MethodOps
 
+set_option linter.unusedVariables false
+set_option linter.constructorNameAsVariable false
+set_option maxRecDepth 8192
+
 namespace VR
 namespace C01F
 open VK VG Spec Real C01M C11M C01E
 
-#check @C11M.V4
-#print C11M.V4
-#print VG.Arg
-#check @spatialResult
+/-! ## 1. generic lemmas for the methods whose result is `spatialResult` (Cartesian spatial part, t/τ kept) -/
+
+theorem good4_spatialResult (raw : Az → Lon → ℝ → ℝ → ℝ → ℝ × ℝ × ℝ) {v : Vec ℝ} {p : List ℝ} (ha : Good4 v)
+    (hden : denote (spatialResult raw v) = some p) (gr : Generic4 p) : Good4 (spatialResult raw v) := by
+  obtain ⟨be, mom, az, l, tm, a, b, c, d, rfl, hA, hL, hTm, hS⟩ := good4_cases ha
+  exact good4_result (be := be) (mom := mom) (az := .xy) (l := .z) (tm := tm) trivial trivial hTm hden gr
+
+/-- a spatial rotation-like method on a good 3D vector -/
+theorem spat3_case (C : Vec ℝ → Except Err (Res ℝ Prop)) (f : ℝ × ℝ × ℝ → ℝ × ℝ × ℝ)
+    (hsingle : ∀ v, C01M.WFV v → 3 ≤ v.ty.dim → TanOKV v → ∃ w, C v = .ok (.vec w) ∧
+      w.ty = { v.ty with az := .xy, lon := some .z } ∧ C01M.WFV w ∧ denote w = (denote v).map (onSpatial f))
+    {va : Vec ℝ} {pa : List ℝ} (ha : Good3 va) (da : denote va = some pa) (ga : Generic3 pa)
+    (gr : Generic3 (onSpatial f pa)) :
+    ∃ r, C va = .ok (.vec r) ∧ Good3 r ∧ denote r = some (onSpatial f pa) := by
+  obtain ⟨hT, -, -, -, -, -⟩ := generic_storage_ok ha da ga
+  obtain ⟨w, hcall, hty, hwf, hden⟩ := hsingle va ha.wf ha.dim.ge hT
+  rw [da] at hden
+  exact ⟨w, hcall, good3_xyz hwf (by rw [hty]) (by rw [hty]) (by rw [hty]; exact good3_tmp ha), hden⟩
+
+/-- a spatial rotation-like method on a good 4D vector: needs the explicit form of the result (the stored t/τ is kept) -/
+theorem spat4_case (C : Vec ℝ → Except Err (Res ℝ Prop)) (f : ℝ × ℝ × ℝ → ℝ × ℝ × ℝ)
+    (raw : Az → Lon → ℝ → ℝ → ℝ → ℝ × ℝ × ℝ)
+    (hsingle : ∀ v, C01M.WFV v → 3 ≤ v.ty.dim → TanOKV v → ∃ w, C v = .ok (.vec w) ∧
+      w.ty = { v.ty with az := .xy, lon := some .z } ∧ C01M.WFV w ∧ denote w = (denote v).map (onSpatial f))
+    (heval : ∀ v, C01M.WFV v → 3 ≤ v.ty.dim → C v = .ok (.vec (spatialResult raw v)))
+    {va : Vec ℝ} {pa : List ℝ} (ha : Good4 va) (da : denote va = some pa) (ga : Generic4 pa)
+    (gr : Generic4 (onSpatial f pa)) :
+    ∃ r, C va = .ok (.vec r) ∧ Good4 r ∧ denote r = some (onSpatial f pa) := by
+  obtain ⟨hT, -, -, -, -, -⟩ := generic_storage_ok4 ha da ga
+  have hd : 3 ≤ va.ty.dim := by rw [ha.dim]; decide
+  obtain ⟨w, hcall, -, -, hden⟩ := hsingle va ha.wf hd hT
+  rw [da] at hden
+  refine ⟨w, hcall, ?_, hden⟩
+  have he := heval va ha.wf hd
+  rw [hcall] at he
+  have := vec_inj he
+  subst this
+  exact good4_spatialResult raw ha hden gr
+
+/-- lifting to the dimension-free invariant (operand of dimension ≥ 3) -/
+theorem spat_case (C : Vec ℝ → Except Err (Res ℝ Prop)) (f : ℝ × ℝ × ℝ → ℝ × ℝ × ℝ)
+    (raw : Az → Lon → ℝ → ℝ → ℝ → ℝ × ℝ × ℝ)
+    (hsingle : ∀ v, C01M.WFV v → 3 ≤ v.ty.dim → TanOKV v → ∃ w, C v = .ok (.vec w) ∧
+      w.ty = { v.ty with az := .xy, lon := some .z } ∧ C01M.WFV w ∧ denote w = (denote v).map (onSpatial f))
+    (heval : ∀ v, C01M.WFV v → 3 ≤ v.ty.dim → C v = .ok (.vec (spatialResult raw v)))
+    {va : Vec ℝ} {pa : List ℝ} (ha : Good va) (da : denote va = some pa) (ga : Generic pa) (hl : 3 ≤ pa.length)
+    (gr : Generic (onSpatial f pa)) :
+    ∃ r, C va = .ok (.vec r) ∧ Good r ∧ denote r = some (onSpatial f pa) :=
+  un_lift C (onSpatial f) (onSpatial_length _ _)
+    (fun _ g _ => by obtain ⟨x, y, e, -⟩ := g; rw [e] at hl; simp at hl)
+    (fun h3 g g' => spat3_case C f hsingle h3 da g g')
+    (fun h4 g g' => spat4_case C f raw hsingle heval h4 da g g') ha da ga gr
+
+/-! ### the rotations -/
+
+theorem rotate_quaternion_case (K : Consts ℝ) (A : Arith ℝ) (u i j k : ℝ) (hq : u ^ 2 + i ^ 2 + j ^ 2 + k ^ 2 = 1)
+    {va : Vec ℝ} {pa : List ℝ} (ha : Good va) (da : denote va = some pa) (ga : Generic pa) (hl : 3 ≤ pa.length)
+    (gr : Generic (onSpatial (quatRot u i j k) pa)) :
+    ∃ r, call evR K A "rotate_quaternion" va [.sc u, .sc i, .sc j, .sc k] = .ok (.vec r) ∧ Good r ∧
+      denote r = some (onSpatial (quatRot u i j k) pa) :=
+  spat_case (fun v => call evR K A "rotate_quaternion" v [.sc u, .sc i, .sc j, .sc k]) (quatRot u i j k)
+    (fun k0 k1 => spatial_rotate_quaternion.eval k0 k1 u i j k)
+    (fun v hv hd hT => c01m_rotate_quaternion K A v hv hd hT u i j k hq)
+    (fun v hv hd => rotate_quaternion_eval K A v hv hd u i j k) ha da ga hl gr
+
+theorem euler_call_eq (K : Consts ℝ) (A : Arith ℝ) (v : Vec ℝ) (hd : 3 ≤ v.ty.dim) (φ θ ψ : ℝ) :
+    call evR K A "rotate_euler" v [.sc φ, .sc θ, .sc ψ] =
+      dispatch evR .spatial_rotate_euler [φ, θ, ψ] (some .zxz) [v] [v] := by
+  rw [call_rotate_euler, if_neg (by omega)]
+
+theorem rotate_euler_case (K : Consts ℝ) (A : Arith ℝ) (φ θ ψ : ℝ)
+    {va : Vec ℝ} {pa : List ℝ} (ha : Good va) (da : denote va = some pa) (ga : Generic pa) (hl : 3 ≤ pa.length)
+    (gr : Generic (onSpatial (eulerRot .zxz φ θ ψ) pa)) :
+    ∃ r, call evR K A "rotate_euler" va [.sc φ, .sc θ, .sc ψ] = .ok (.vec r) ∧ Good r ∧
+      denote r = some (onSpatial (eulerRot .zxz φ θ ψ) pa) :=
+  spat_case (fun v => call evR K A "rotate_euler" v [.sc φ, .sc θ, .sc ψ]) (eulerRot .zxz φ θ ψ)
+    (fun k l => spatial_rotate_euler.eval k l .zxz φ θ ψ)
+    (fun v hv hd hT => c01m_rotate_euler K A v hv hd hT φ θ ψ)
+    (fun v hv hd => by
+      show call evR K A "rotate_euler" v [.sc φ, .sc θ, .sc ψ] = _
+      rw [euler_call_eq K A v hd]; exact euler_dispatch_eval v hv hd .zxz φ θ ψ) ha da ga hl gr
+
+theorem ordOf_str (o : Ord) : ordOf o.str = some o := by cases o <;> decide +kernel
+
+theorem euler_ord_call_eq (K : Consts ℝ) (A : Arith ℝ) (v : Vec ℝ) (hd : 3 ≤ v.ty.dim) (φ θ ψ : ℝ) (o : Ord) :
+    call evR K A "rotate_euler" v [.sc φ, .sc θ, .sc ψ, .str o.str] =
+      dispatch evR .spatial_rotate_euler [φ, θ, ψ] (some o) [v] [v] := by
+  rw [call_rotate_euler_ord, if_neg (by omega), ordOf_str]
+  simp only [if_neg (show ¬ v.ty.dim < 3 by omega)]
+
+/-- `rotate_euler(φ, θ, ψ, order=o.str)` for each of the 12 orders -/
+theorem rotate_euler_ord_case (K : Consts ℝ) (A : Arith ℝ) (o : Ord) (φ θ ψ : ℝ)
+    {va : Vec ℝ} {pa : List ℝ} (ha : Good va) (da : denote va = some pa) (ga : Generic pa) (hl : 3 ≤ pa.length)
+    (gr : Generic (onSpatial (eulerRot o φ θ ψ) pa)) :
+    ∃ r, call evR K A "rotate_euler" va [.sc φ, .sc θ, .sc ψ, .str o.str] = .ok (.vec r) ∧ Good r ∧
+      denote r = some (onSpatial (eulerRot o φ θ ψ) pa) :=
+  spat_case (fun v => call evR K A "rotate_euler" v [.sc φ, .sc θ, .sc ψ, .str o.str]) (eulerRot o φ θ ψ)
+    (fun k l => spatial_rotate_euler.eval k l o φ θ ψ)
+    (fun v hv hd hT => c01m_rotate_euler_ord K A v hv hd hT φ θ ψ o.str o (ordOf_str o))
+    (fun v hv hd => by
+      show call evR K A "rotate_euler" v [.sc φ, .sc θ, .sc ψ, .str o.str] = _
+      rw [euler_ord_call_eq K A v hd]; exact euler_dispatch_eval v hv hd o φ θ ψ) ha da ga hl gr
+
+theorem rotate_nautical_case (K : Consts ℝ) (A : Arith ℝ) (yaw pitch roll : ℝ)
+    {va : Vec ℝ} {pa : List ℝ} (ha : Good va) (da : denote va = some pa) (ga : Generic pa) (hl : 3 ≤ pa.length)
+    (gr : Generic (onSpatial (eulerRot .zyx roll pitch yaw) pa)) :
+    ∃ r, call evR K A "rotate_nautical" va [.sc yaw, .sc pitch, .sc roll] = .ok (.vec r) ∧ Good r ∧
+      denote r = some (onSpatial (eulerRot .zyx roll pitch yaw) pa) :=
+  spat_case (fun v => call evR K A "rotate_nautical" v [.sc yaw, .sc pitch, .sc roll]) (eulerRot .zyx roll pitch yaw)
+    (fun k l => spatial_rotate_euler.eval k l .zyx roll pitch yaw)
+    (fun v hv hd hT => c01m_rotate_nautical K A v hv hd hT yaw pitch roll)
+    (fun v hv hd => by
+      show call evR K A "rotate_nautical" v [.sc yaw, .sc pitch, .sc roll] = _
+      rw [call_rotate_nautical, if_neg (by omega)]; exact euler_dispatch_eval v hv hd .zyx roll pitch yaw)
+    ha da ga hl gr
+
+/-- Rodrigues' rotation on component lists: about the direction of the (3-component) axis list -/
+noncomputable def axisRotL : List ℝ → ℝ → List ℝ → List ℝ
+  | [ux, uy, uz], ang, p => onSpatial (axisRot (ux, uy, uz) ang) p
+  | _, _, p => p
+
+/-- `v.rotate_axis(axis, ang)`: `v` 3D or 4D, `axis` a generic 3D vector, both in any storage -/
+theorem rotate_axis_case (K : Consts ℝ) (A : Arith ℝ) (ang : ℝ)
+    {va vx : Vec ℝ} {pa px : List ℝ} (ha : Good va) (hx : Good3 vx) (da : denote va = some pa)
+    (dx : denote vx = some px) (ga : Generic pa) (gx : Generic3 px) (hl : 3 ≤ pa.length)
+    (gr : Generic (axisRotL px ang pa)) :
+    ∃ r, call evR K A "rotate_axis" va [.v vx, .sc ang] = .ok (.vec r) ∧ Good r ∧
+      denote r = some (axisRotL px ang pa) := by
+  obtain ⟨hTx, -, -, -, -, -⟩ := generic_storage_ok hx dx gx
+  obtain ⟨be', mom', az', l', u1, u2, u3, rfl, -, -, -⟩ := good3_cases hx
+  obtain ⟨ux, uy, uz, rfl, g1, g2⟩ := id gx
+  have hpos : 0 < ux ^ 2 + uy ^ 2 + uz ^ 2 := by positivity
+  exact spat_case (fun v => call evR K A "rotate_axis" v [.v (C11M.V3 be' mom' az' l' u1 u2 u3), .sc ang])
+    (axisRot (ux, uy, uz) ang)
+    (fun k l a b c => spatial_rotate_axis.eval az' l' k l ang u1 u2 u3 a b c)
+    (fun v hv hd hT => c01m_rotate_axis K A v hv hd hT _ hx.wf hx.dim hTx ux uy uz dx hpos ang)
+    (fun v hv hd => rotate_axis_eval K A v hv hd be' mom' az' l' u1 u2 u3 ang) ha da ga hl gr
+
+/-! ### axis boosts given by `gamma=` (`1 ≤ |γ|`) -/
+
+theorem boostXg4_case (K : Consts ℝ) (A : Arith ℝ) (γ : ℝ) (hγ : 1 ≤ |γ|) {va : Vec ℝ} {pa : List ℝ} (ha : Good4 va)
+    (da : denote va = some pa) (ga : Generic4 pa) (gr : Generic4 (on4 (bXγ γ) pa)) :
+    ∃ r, call evR K A "boostX" va [.kw "gamma" γ] = .ok (.vec r) ∧ Good4 r ∧ denote r = some (on4 (bXγ γ) pa) := by
+  obtain ⟨-, -, -, -, hB, -⟩ := generic_storage_ok4 ha da ga
+  obtain ⟨w, hcall, -, -, hden⟩ := c09m_boostX_gamma K A va ha.wf ha.dim hB γ (fun _ => hγ)
+  rw [da] at hden
+  refine ⟨w, hcall, ?_, hden⟩
+  obtain ⟨be, mom, az, l, tm, a, b, c, d, rfl, hA, hL, hTm, hS⟩ := good4_cases ha
+  have he := boostX_gamma_eval K A be mom az l tm a b c d γ
+  rw [hcall, (c13c_lorentz_boostXY_ret az l tm).2.1] at he
+  have := vec_inj he
+  subst this
+  have hc := c13c_lorentz_boostX_gamma az l tm γ a b c d hTm
+  rw [(c13c_lorentz_boostXY_ret az l tm).2.1] at hc
+  obtain ⟨h1, h2, h3⟩ := outCanon4_parts hc
+  exact good4_result (be := be) (mom := mom) h1 h2 h3 hden gr
+
+theorem boostYg4_case (K : Consts ℝ) (A : Arith ℝ) (γ : ℝ) (hγ : 1 ≤ |γ|) {va : Vec ℝ} {pa : List ℝ} (ha : Good4 va)
+    (da : denote va = some pa) (ga : Generic4 pa) (gr : Generic4 (on4 (bYγ γ) pa)) :
+    ∃ r, call evR K A "boostY" va [.kw "gamma" γ] = .ok (.vec r) ∧ Good4 r ∧ denote r = some (on4 (bYγ γ) pa) := by
+  obtain ⟨-, -, -, -, hB, -⟩ := generic_storage_ok4 ha da ga
+  obtain ⟨w, hcall, -, -, hden⟩ := c09m_boostY_gamma K A va ha.wf ha.dim hB γ (fun _ => hγ)
+  rw [da] at hden
+  refine ⟨w, hcall, ?_, hden⟩
+  obtain ⟨be, mom, az, l, tm, a, b, c, d, rfl, hA, hL, hTm, hS⟩ := good4_cases ha
+  have he := boostY_gamma_eval K A be mom az l tm a b c d γ
+  rw [hcall, (c13c_lorentz_boostXY_ret az l tm).2.2.2] at he
+  have := vec_inj he
+  subst this
+  have hc := c13c_lorentz_boostY_gamma az l tm γ a b c d hTm
+  rw [(c13c_lorentz_boostXY_ret az l tm).2.2.2] at hc
+  obtain ⟨h1, h2, h3⟩ := outCanon4_parts hc
+  exact good4_result (be := be) (mom := mom) h1 h2 h3 hden gr
+
+theorem boostZg4_case (K : Consts ℝ) (A : Arith ℝ) (γ : ℝ) (hγ : 1 ≤ |γ|) {va : Vec ℝ} {pa : List ℝ} (ha : Good4 va)
+    (da : denote va = some pa) (ga : Generic4 pa) (gr : Generic4 (on4 (bZγ γ) pa)) :
+    ∃ r, call evR K A "boostZ" va [.kw "gamma" γ] = .ok (.vec r) ∧ Good4 r ∧ denote r = some (on4 (bZγ γ) pa) := by
+  obtain ⟨-, -, -, -, hB, -⟩ := generic_storage_ok4 ha da ga
+  obtain ⟨w, hcall, -, -, hden⟩ := c09m_boostZ_gamma K A va ha.wf ha.dim hB γ (fun _ => hγ)
+  rw [da] at hden
+  refine ⟨w, hcall, ?_, hden⟩
+  obtain ⟨be, mom, az, l, tm, a, b, c, d, rfl, hA, hL, hTm, hS⟩ := good4_cases ha
+  have he := boostZ_gamma_eval K A be mom az l tm a b c d γ
+  rw [hcall, (c13c_lorentz_boostZ_ret az l tm).2] at he
+  have := vec_inj he
+  subst this
+  have hc := c13c_lorentz_boostZ_gamma az l tm γ a b c d hA hTm
+  rw [(c13c_lorentz_boostZ_ret az l tm).2] at hc
+  obtain ⟨h1, h2, h3⟩ := outCanon4_parts hc
+  exact good4_result (be := be) (mom := mom) h1 h2 h3 hden gr
+
+/-! ### `to_beta3` : 4D → 3D -/
+
+/-- the velocity `(x/t, y/t, z/t)` of a four-vector -/
+noncomputable def beta3L : List ℝ → List ℝ
+  | [x, y, z, t] => [x / t, y / t, z / t]
+  | p => p
+
+theorem to_beta3_ret_eq (az : Az) (l : Lon) (tm : Tmp) : lorentz_to_beta3.ret az l tm = .vec [.az az, .lon l, .none] := by
+  cases az <;> cases l <;> cases tm <;> rfl
+
+/-- the velocity of a generic (forward time-like) four-vector is a generic 3D point -/
+theorem generic3_beta3L {p : List ℝ} (h : Generic4 p) : Generic3 (beta3L p) := by
+  obtain ⟨x, y, z, t, rfl, h1, h2, h3, h4⟩ := h
+  refine ⟨x / t, y / t, z / t, rfl, ?_, div_ne_zero h2 h4.ne'⟩
+  have e : (x / t) ^ 2 + (y / t) ^ 2 = (x ^ 2 + y ^ 2) / t ^ 2 := by field_simp
+  rw [e]; positivity
+
+theorem to_beta3_case (K : Consts ℝ) (A : Arith ℝ) {va : Vec ℝ} {pa : List ℝ} (ha : Good4 va)
+    (da : denote va = some pa) (ga : Generic4 pa) :
+    ∃ r, call evR K A "to_beta3" va [] = .ok (.vec r) ∧ Good3 r ∧ denote r = some (beta3L pa) := by
+  have gr := generic3_beta3L ga
+  obtain ⟨be, mom, az, l, tm, a, b, c, d, rfl, hA, hL, hTm, hS⟩ := good4_cases ha
+  have ea := denote_V4_eq da
+  subst ea
+  obtain ⟨g1, g2, g3, g4⟩ := (generic4_iff _ _ _ _).1 ga
+  obtain ⟨hr, hc2, hT, hCL, hθ, hm⟩ := core3 hA hL hS g1 g2
+  have hC := canonTmp_of_inTmp hTm
+  obtain ⟨w, hcall, -, -, hden⟩ := c09m_to_beta3_pos K A _ ha.wf ⟨hCL, hC⟩ _ _ _ _ da g4
+  refine ⟨w, hcall, ?_, hden⟩
+  have he := to_beta3_eval K A be mom az l tm a b c d
+  rw [hcall, to_beta3_ret_eq] at he
+  have := vec_inj he
+  subst this
+  have hc := c13c_lorentz_to_beta3_partial az l tm a b c d hA hL
+    (fun _ => by rw [refine_lorentz_t az l tm a b c d hCL hC]; exact g4)
+  rw [to_beta3_ret_eq] at hc
+  simp only [OutCanon3, OutCanonR, OutCanonL, and_true] at hc
+  exact good3_result (be := be) (mom := mom) (az := az) (l := l) hc.1 hc.2 hden gr
+
+/-! ### lower-dimensional `to_<system>` projections -/
+
+/-- `to_xy()` / `to_rhophi()` on a 3D or 4D vector: the azimuthal part, converted -/
+theorem proj2_case (K : Consts ℝ) (A : Arith ℝ) (az : Az) {va : Vec ℝ} {pa : List ℝ} (ha : Good va)
+    (da : denote va = some pa) :
+    ∃ r, call evR K A (convName2 az) va [] = .ok (.vec r) ∧ Good2 r ∧ denote r = some (pa.take 2) := by
+  obtain ⟨hv, hr, hs⟩ := ha
+  have he := call_of_target K A (convName2 az) az none none (convName2_target az) va
+  rcases wfv_cases hv with ⟨be, mom, az0, a, b, rfl⟩ | ⟨be, mom, az0, l0, a, b, c, rfl⟩ |
+    ⟨be, mom, az0, l0, t0, a, b, c, d, rfl⟩
+  · rw [C04M.toSystem_eval2] at he
+    refine ⟨_, he, good2_mk _ _ _ _ _ (conv_range_az hr.1), ?_⟩
+    rw [denote_V2_eq da]
+    simp only [denote, C04M.conv2_x, C04M.conv2_y, List.take]
+  · rw [C04M.toSystem_eval32] at he
+    refine ⟨_, he, good2_mk _ _ _ _ _ (conv_range_az hr.1), ?_⟩
+    rw [denote_V3_eq da]
+    simp only [denote, C04M.conv2_x, C04M.conv2_y, List.take]
+  · rw [C04M.toSystem_eval42] at he
+    refine ⟨_, he, good2_mk _ _ _ _ _ (conv_range_az hr.1), ?_⟩
+    rw [denote_V4_eq da]
+    simp only [denote, C04M.conv2_x, C04M.conv2_y, List.take]
+
+/-- `to_xyz()` … `to_rhophieta()` on a 4D vector: the spatial part, converted -/
+theorem proj3_case (K : Consts ℝ) (A : Arith ℝ) (az : Az) (l : Lon) {va : Vec ℝ} {pa : List ℝ} (ha : Good4 va)
+    (da : denote va = some pa) (ga : Generic4 pa) :
+    ∃ r, call evR K A (convName az l) va [] = .ok (.vec r) ∧ Good3 r ∧ denote r = some (pa.take 3) := by
+  obtain ⟨be, mom, az0, l0, t0, a, b, c, d, rfl, hA, hL, hTm, hS⟩ := good4_cases ha
+  have ea := denote_V4_eq da
+  subst ea
+  obtain ⟨g1, g2, g3, g4⟩ := (generic4_iff _ _ _ _).1 ga
+  obtain ⟨hr, hc2, hT, hCL, hθ, hm⟩ := core3 hA hL hS g1 g2
+  have hF : C04M.LonOK az0 l0 l a b c := by
+    cases l
+    · exact hT
+    · exact hr
+    · exact ⟨hr, hCL⟩
+  have he := call_of_target K A (convName az l) az (some l) none (convName_target az l) (C11M.V4 be mom az0 l0 t0 a b c d)
+  rw [C04M.toSystem_eval43] at he
+  have hden : denote (C11M.V3 be mom az l (C04M.conv2 az0 az a b).1 (C04M.conv2 az0 az a b).2
+      (C04M.convLon az0 l0 l a b c)) = some [xOf az0 a b, yOf az0 a b, zOf az0 l0 a b c] := by
+    simp only [denote, C04M.conv2_x, C04M.conv2_y, C04M.convLon_z _ _ _ _ _ _ _ hF]
+  obtain ⟨h1, h2⟩ := conv_range (az := az) (l := l) hA hr hCL
+  exact ⟨_, he, good3_result h1 h2 hden ((generic3_iff _ _ _).2 ⟨g1, g2⟩), hden⟩
+
+/-! ### `transform2D` on 2D, `transform3D` on 3D, `transform4D` on 4D vectors -/
+
+theorem transform2D_case (K : Consts ℝ) (A : Arith ℝ) (xx xy yx yy : ℝ) {va : Vec ℝ} {pa : List ℝ} (ha : Good2 va)
+    (da : denote va = some pa) :
+    ∃ r, call evR K A "transform2D" va [.sc xx, .sc xy, .sc yx, .sc yy] = .ok (.vec r) ∧ Good2 r ∧
+      denote r = some (onPlanar (C12M.mat2 xx xy yx yy) pa) := by
+  obtain ⟨be, mom, az, a, b, rfl, hA⟩ := good2_cases ha
+  obtain ⟨w, hcall, -, -, -, -, -, hden⟩ := C12M.c12m_transform2D K A (C11M.V2 be mom az a b) ha.wf xx xy yx yy
+  have hden' := hden (Or.inl rfl)
+  rw [da] at hden'
+  refine ⟨w, hcall, ?_, hden'⟩
+  have he := C12M.transform2D_eval2 K A be mom az xx xy yx yy a b
+  rw [hcall] at he
+  have := vec_inj he
+  subst this
+  exact good2_mk _ _ _ _ _ trivial
+
+theorem transform3D_case (K : Consts ℝ) (A : Arith ℝ) (xx xy xz yx yy yz zx zy zz : ℝ) {va : Vec ℝ} {pa : List ℝ}
+    (ha : Good3 va) (da : denote va = some pa) (ga : Generic3 pa) :
+    ∃ r, call evR K A "transform3D" va [.sc xx, .sc xy, .sc xz, .sc yx, .sc yy, .sc yz, .sc zx, .sc zy, .sc zz]
+        = .ok (.vec r) ∧ Good3 r ∧ denote r = some (onSpatial (C12M.mat3 xx xy xz yx yy yz zx zy zz) pa) := by
+  obtain ⟨hT, -, -, -, -, -⟩ := generic_storage_ok ha da ga
+  obtain ⟨w, hcall, hty, hwf, -, -, hden⟩ := C12M.c12m_transform3D K A va ha.wf ha.dim.ge hT xx xy xz yx yy yz zx zy zz
+  have hden' := hden (by rw [good3_tmp ha]; exact fun h => nomatch h)
+  rw [da] at hden'
+  exact ⟨w, hcall, good3_xyz hwf (by rw [hty]) (by rw [hty]) (by rw [hty]; exact good3_tmp ha), hden'⟩
+
+/-- the 16 entries of a 4×4 matrix, row by row -/
+structure M4 where
+  (xx xy xz xt yx yy yz yt zx zy zz zt tx ty tz tt : ℝ)
+
+def M4.args (m : M4) : List (Arg ℝ) :=
+  [.sc m.xx, .sc m.xy, .sc m.xz, .sc m.xt, .sc m.yx, .sc m.yy, .sc m.yz, .sc m.yt, .sc m.zx, .sc m.zy, .sc m.zz, .sc m.zt,
+    .sc m.tx, .sc m.ty, .sc m.tz, .sc m.tt]
+
+def M4.ap (m : M4) : ℝ × ℝ × ℝ × ℝ → ℝ × ℝ × ℝ × ℝ :=
+  transform4 m.xx m.xy m.xz m.xt m.yx m.yy m.yz m.yt m.zx m.zy m.zz m.zt m.tx m.ty m.tz m.tt
+
+theorem transform4D_case (K : Consts ℝ) (A : Arith ℝ) (m : M4) {va : Vec ℝ} {pa : List ℝ}
+    (ha : Good4 va) (da : denote va = some pa) (ga : Generic4 pa) :
+    ∃ r, call evR K A "transform4D" va m.args = .ok (.vec r) ∧ Good4 r ∧ denote r = some (on4 m.ap pa) := by
+  obtain ⟨-, -, -, -, hB, -⟩ := generic_storage_ok4 ha da ga
+  obtain ⟨w, hcall, hty, hwf, hden⟩ := C12M.c12m_transform4D K A va ha.wf ha.dim hB
+    m.xx m.xy m.xz m.xt m.yx m.yy m.yz m.yt m.zx m.zy m.zz m.zt m.tx m.ty m.tz m.tt
+  rw [da] at hden
+  refine ⟨w, hcall, ?_, hden⟩
+  obtain ⟨be, mom, az, l, tm, a, b, c, d, rfl, hA, hL, hTm, hS⟩ := good4_cases ha
+  have he := C12M.transform4D_eval4 K A be mom az l tm
+    m.xx m.xy m.xz m.xt m.yx m.yy m.yz m.yt m.zx m.zy m.zz m.zt m.tx m.ty m.tz m.tt a b c d
+  have hcall' : call evR K A "transform4D" (C11M.V4 be mom az l tm a b c d) m.args = .ok (.vec w) := hcall
+  simp only [M4.args] at hcall'
+  rw [hcall'] at he
+  have := vec_inj he
+  subst this
+  exact good4_mk _ _ _ _ _ _ _ _ _ trivial trivial trivial trivial
+
+/-! ### `boostCM_of_p4`, `boostCM_of_beta3`: `neg3D` of the booster, then the boost -/
+
+/-- `boostCM_of_p4` on component lists: `bp4 X (−p⃗, E)` -/
+noncomputable def bcm4L : List ℝ → List ℝ → List ℝ
+  | [x, y, z, t], [px, py, pz, E] => l4 (bp4 (x, y, z, t) (-px, -py, -pz, E))
+  | p, _ => p
+
+/-- `boostCM_of_beta3` on component lists: `bβ3 X (−β⃗)` -/
+noncomputable def bcm3L : List ℝ → List ℝ → List ℝ
+  | [x, y, z, t], [bx, by', bz] => l4 (bβ3 (x, y, z, t) (-bx, -by', -bz))
+  | p, _ => p
+
+theorem boostCM_of_p4_eval (K : Consts ℝ) (A : Arith ℝ) (hK : K.negOne = -1) (be mom az l t) (a b c d : ℝ)
+    (be' mom' az' l' t') (a' b' c' d' : ℝ) :
+    call evR K A "boostCM_of_p4" (C11M.V4 be mom az l t a b c d) [.v (C11M.V4 be' mom' az' l' t' a' b' c' d')] =
+      call evR K A "boost_p4" (C11M.V4 be mom az l t a b c d)
+        [.v (C11M.V4 be' mom' az' l' t' (spatial_scale.eval az' l' (-1) a' b' c').1
+          (spatial_scale.eval az' l' (-1) a' b' c').2.1 (spatial_scale.eval az' l' (-1) a' b' c').2.2 d')] := by
+  have hn := neg3D_eval4 K be' mom' az' l' t' a' b' c' d'
+  rw [hK] at hn
+  have hcm := call_boostCM evR K A ⟨⟨be, mom, az, some l, some t⟩, [a, b, c, d]⟩
+    ⟨⟨be', mom', az', some l', some t'⟩, [a', b', c', d']⟩
+  simp only [hn] at hcm
+  have hb := call_boost_p4 evR K A ⟨⟨be, mom, az, some l, some t⟩, [a, b, c, d]⟩
+    ⟨⟨be', mom', az', some l', some t'⟩, [(spatial_scale.eval az' l' (-1) a' b' c').1,
+      (spatial_scale.eval az' l' (-1) a' b' c').2.1, (spatial_scale.eval az' l' (-1) a' b' c').2.2, d']⟩
+  simp [VT.dim] at hcm hb
+  rw [hcm.1, ← hb]
+
+theorem boostCM_of_beta3_eval (K : Consts ℝ) (A : Arith ℝ) (hK : K.negOne = -1) (be mom az l t) (a b c d : ℝ)
+    (be' mom' az' l') (a' b' c' : ℝ) :
+    call evR K A "boostCM_of_beta3" (C11M.V4 be mom az l t a b c d) [.v (C11M.V3 be' mom' az' l' a' b' c')] =
+      call evR K A "boost_beta3" (C11M.V4 be mom az l t a b c d)
+        [.v (C11M.V3 be' mom' az' l' (spatial_scale.eval az' l' (-1) a' b' c').1
+          (spatial_scale.eval az' l' (-1) a' b' c').2.1 (spatial_scale.eval az' l' (-1) a' b' c').2.2)] := by
+  have hn := neg3D_eval3 K be' mom' az' l' a' b' c'
+  rw [hK] at hn
+  have hcm := call_boostCM evR K A ⟨⟨be, mom, az, some l, some t⟩, [a, b, c, d]⟩
+    ⟨⟨be', mom', az', some l', none⟩, [a', b', c']⟩
+  simp only [hn] at hcm
+  have hb := call_boost_beta3 evR K A ⟨⟨be, mom, az, some l, some t⟩, [a, b, c, d]⟩
+    ⟨⟨be', mom', az', some l', none⟩, [(spatial_scale.eval az' l' (-1) a' b' c').1,
+      (spatial_scale.eval az' l' (-1) a' b' c').2.1, (spatial_scale.eval az' l' (-1) a' b' c').2.2]⟩
+  simp [VT.dim] at hcm hb
+  rw [hcm.2.1, ← hb]
+
+theorem boostCM_of_p4_case (K : Consts ℝ) (A : Arith ℝ) (hK : K.negOne = -1) {va vb : Vec ℝ} {pa pb : List ℝ}
+    (ha : Good4 va) (hb : Good4 vb) (da : denote va = some pa) (db : denote vb = some pb) (ga : Generic4 pa)
+    (gb : Generic4 pb) (gr : Generic4 (bcm4L pa pb)) :
+    ∃ r, call evR K A "boostCM_of_p4" va [.v vb] = .ok (.vec r) ∧ Good4 r ∧ denote r = some (bcm4L pa pb) := by
+  obtain ⟨-, -, -, -, -, hSa⟩ := generic_storage_ok4 ha da ga
+  obtain ⟨x, y, z, t, rfl, -, -, -, -⟩ := id ga
+  obtain ⟨px, py, pz, E, rfl, q1, q2, hE1, hE2⟩ := id gb
+  obtain ⟨be1, mom1, az1, l1, t1, a0, a1, a2, a3, rfl, hA1, hL1, hT1, hS1⟩ := good4_cases ha
+  obtain ⟨be2, mom2, az2, l2, t2, b0, b1, b2, b3, rfl, hA2, hL2, hT2, hS2⟩ := good4_cases hb
+  have eb := denote_V4_eq db
+  simp only [List.cons.injEq, and_true] at eb
+  obtain ⟨ex, ey, ez, eE⟩ := eb
+  have hcore := core3 hA2 hL2 hS2 (by rw [← ex, ← ey]; exact q1) (by rw [← ez]; exact q2)
+  obtain ⟨hr, hc2, hT, hCL, hθ, hm⟩ := hcore
+  have hcp : Stored4 (fun _ l t _ _ c d => ThetaRange l c ∧ TanOK l c ∧ SinOK l c ∧ CanonTmp t d)
+      (C11M.V4 be2 mom2 az2 l2 t2 b0 b1 b2 b3) := ⟨hθ, hT, hS2, canonTmp_of_inTmp hT2⟩
+  obtain ⟨w, hcall, -, -, -, hden⟩ := c09m_boostCM_of_p4 K A hK _ _ ha.wf ha.dim hb.wf hb.dim hSa hcp x y z t px py pz E da db
+    (fun _ => ⟨hE1, hE2⟩)
+  refine ⟨w, hcall, ?_, hden⟩
+  have he := boostCM_of_p4_eval K A hK be1 mom1 az1 l1 t1 a0 a1 a2 a3 be2 mom2 az2 l2 t2 b0 b1 b2 b3
+  rw [hcall, boost_p4_eval] at he
+  have := vec_inj he
+  subst this
+  have hc := c13c_lorentz_boost_p4 az1 l1 t1 az2 l2 t2 a0 a1 a2 a3 (spatial_scale.eval az2 l2 (-1) b0 b1 b2).1
+    (spatial_scale.eval az2 l2 (-1) b0 b1 b2).2.1 (spatial_scale.eval az2 l2 (-1) b0 b1 b2).2.2 b3 hT1
+  rw [c13c_lorentz_boost_p4_ret] at hc
+  obtain ⟨h1, h2, h3⟩ := outCanon4_parts hc
+  exact good4_result (be := C01M.hbe be1 be2) (mom := mom1 || mom2) h1 h2 h3 hden gr
+
+theorem boostCM_of_beta3_case (K : Consts ℝ) (A : Arith ℝ) (hK : K.negOne = -1) {va vb : Vec ℝ} {pa pb : List ℝ}
+    (ha : Good4 va) (hb : Good3 vb) (da : denote va = some pa) (db : denote vb = some pb) (ga : Generic4 pa)
+    (gb : Generic3 pb) (hsub : SubLum pb) (gr : Generic4 (bcm3L pa pb)) :
+    ∃ r, call evR K A "boostCM_of_beta3" va [.v vb] = .ok (.vec r) ∧ Good4 r ∧ denote r = some (bcm3L pa pb) := by
+  obtain ⟨-, -, -, -, -, hSa⟩ := generic_storage_ok4 ha da ga
+  obtain ⟨-, -, -, hθb, -, -, -, hTb, hSb, -⟩ := generic_storage_ok hb db gb
+  obtain ⟨x, y, z, t, rfl, -, -, -, -⟩ := id ga
+  obtain ⟨bx, by', bz, rfl, -, -⟩ := id gb
+  obtain ⟨be1, mom1, az1, l1, t1, a0, a1, a2, a3, rfl, hA1, hL1, hT1, hS1⟩ := good4_cases ha
+  obtain ⟨be2, mom2, az2, l2, b0, b1, b2, rfl, hA2, hL2, hS2⟩ := good3_cases hb
+  have hcp : Stored3 (fun _ l _ _ c => ThetaRange l c ∧ TanOK l c ∧ SinOK l c) (C11M.V3 be2 mom2 az2 l2 b0 b1 b2) :=
+    ⟨hθb, hTb, hSb⟩
+  obtain ⟨w, hcall, -, -, -, hden⟩ := c09m_boostCM_of_beta3 K A hK _ _ ha.wf ha.dim hb.wf hb.dim hSa hcp x y z t bx by' bz
+    da db (fun _ => hsub)
+  refine ⟨w, hcall, ?_, hden⟩
+  have he := boostCM_of_beta3_eval K A hK be1 mom1 az1 l1 t1 a0 a1 a2 a3 be2 mom2 az2 l2 b0 b1 b2
+  rw [hcall, boost_beta3_eval] at he
+  have := vec_inj he
+  subst this
+  have hc := c13c_lorentz_boost_beta3 az1 l1 t1 az2 l2 a0 a1 a2 a3 (spatial_scale.eval az2 l2 (-1) b0 b1 b2).1
+    (spatial_scale.eval az2 l2 (-1) b0 b1 b2).2.1 (spatial_scale.eval az2 l2 (-1) b0 b1 b2).2.2 hT1
+  rw [c13c_lorentz_boost_beta3_ret] at hc
+  obtain ⟨h1, h2, h3⟩ := outCanon4_parts hc
+  exact good4_result (be := C01M.hbe be1 be2) (mom := mom1 || mom2) h1 h2 h3 hden gr
+
+/-! ## 2. The extended language: every node of `C01E.E` plus the rest of the vector-valued public API -/
+
+inductive F : Type
+  -- the nodes of `C01E.E`
+  | var (i : Nat)
+  | add (a b : F)
+  | sub (a b : F)
+  | scale (k : ℝ) (a : F)
+  | unit (a : F)
+  | rotateZ (ang : ℝ) (a : F)
+  | rotateX (ang : ℝ) (a : F)
+  | rotateY (ang : ℝ) (a : F)
+  | cross (a b : F)
+  | boostX (β : ℝ) (a : F)
+  | boostY (β : ℝ) (a : F)
+  | boostZ (β : ℝ) (a : F)
+  | boost_p4 (a b : F)
+  | boost_beta3 (a b : F)
+  | conv2 (az : Az) (a : F)
+  | conv3 (az : Az) (lon : Lon) (a : F)
+  | conv4 (az : Az) (lon : Lon) (tmp : Tmp) (a : F)
+  | to2D (a : F)
+  | to3D (a : F)
+  | to3D_kw (l : Lon) (s : ℝ) (a : F)
+  | to4D_kw (tm : Tmp) (s : ℝ) (a : F)
+  -- new: rotations of 3D / 4D vectors
+  | rotate_axis (ang : ℝ) (a axis : F)                -- `a.rotate_axis(axis, ang)`, `axis` a 3D vector
+  | rotate_euler (φ θ ψ : ℝ) (a : F)                  -- default order "zxz"
+  | rotate_euler_ord (o : Ord) (φ θ ψ : ℝ) (a : F)    -- `a.rotate_euler(φ, θ, ψ, order)`, the 12 orders
+  | rotate_nautical (yaw pitch roll : ℝ) (a : F)
+  | rotate_quaternion (u i j k : ℝ) (a : F)           -- unit quaternion
+  -- new: 4D
+  | boostXg (γ : ℝ) (a : F)                           -- `a.boostX(gamma=γ)`
+  | boostYg (γ : ℝ) (a : F)
+  | boostZg (γ : ℝ) (a : F)
+  | boostCM_of_p4 (a b : F)
+  | boostCM_of_beta3 (a b : F)
+  | to_beta3 (a : F)                                  -- 4D → 3D
+  | transform4D (m : M4) (a : F)
+  -- new: 2D / 3D linear maps on a vector of the matching dimension
+  | transform2D (xx xy yx yy : ℝ) (a : F)
+  | transform3D (xx xy xz yx yy yz zx zy zz : ℝ) (a : F)
+  -- new: lower-dimensional `to_<system>` projections
+  | proj2 (az : Az) (a : F)                           -- `to_xy()` / `to_rhophi()` on a vector of any dimension
+  | proj3 (az : Az) (lon : Lon) (a : F)               -- `to_xyz()` … `to_rhophieta()` on a 4D vector
+
+/-- **the model**: every node is the public call on the values of the operands -/
+noncomputable def evalMF (K : Consts ℝ) (A : Arith ℝ) (ρ : Nat → Vec ℝ) : F → Except Err (Vec ℝ)
+  | .var i => .ok (ρ i)
+  | .add a b => bin (evalMF K A ρ a) (evalMF K A ρ b) fun va vb => call evR K A "add" va [.v vb]
+  | .sub a b => bin (evalMF K A ρ a) (evalMF K A ρ b) fun va vb => call evR K A "subtract" va [.v vb]
+  | .scale k a => un (evalMF K A ρ a) fun va => call evR K A "scale" va [.sc k]
+  | .unit a => un (evalMF K A ρ a) fun va => call evR K A "unit" va []
+  | .rotateZ ang a => un (evalMF K A ρ a) fun va => call evR K A "rotateZ" va [.sc ang]
+  | .rotateX ang a => un (evalMF K A ρ a) fun va => call evR K A "rotateX" va [.sc ang]
+  | .rotateY ang a => un (evalMF K A ρ a) fun va => call evR K A "rotateY" va [.sc ang]
+  | .cross a b => bin (evalMF K A ρ a) (evalMF K A ρ b) fun va vb => call evR K A "cross" va [.v vb]
+  | .boostX β a => un (evalMF K A ρ a) fun va => call evR K A "boostX" va [.kw "beta" β]
+  | .boostY β a => un (evalMF K A ρ a) fun va => call evR K A "boostY" va [.kw "beta" β]
+  | .boostZ β a => un (evalMF K A ρ a) fun va => call evR K A "boostZ" va [.kw "beta" β]
+  | .boost_p4 a b => bin (evalMF K A ρ a) (evalMF K A ρ b) fun va vb => call evR K A "boost_p4" va [.v vb]
+  | .boost_beta3 a b => bin (evalMF K A ρ a) (evalMF K A ρ b) fun va vb => call evR K A "boost_beta3" va [.v vb]
+  | .conv2 az a => un (evalMF K A ρ a) fun va => call evR K A (convName2 az) va []
+  | .conv3 az l a => un (evalMF K A ρ a) fun va => call evR K A (convName az l) va []
+  | .conv4 az l tm a => un (evalMF K A ρ a) fun va => call evR K A (convName4 az l tm) va []
+  | .to2D a => un (evalMF K A ρ a) fun va => call evR K A "to_Vector2D" va []
+  | .to3D a => un (evalMF K A ρ a) fun va => call evR K A "to_Vector3D" va []
+  | .to3D_kw l s a => un (evalMF K A ρ a) fun va => call evR K A "to_Vector3D" va [.kw (lonKw l) s]
+  | .to4D_kw tm s a => un (evalMF K A ρ a) fun va => call evR K A "to_Vector4D" va [.kw (tmpKw tm) s]
+  | .rotate_axis ang a x =>
+    bin (evalMF K A ρ a) (evalMF K A ρ x) fun va vx => call evR K A "rotate_axis" va [.v vx, .sc ang]
+  | .rotate_euler φ θ ψ a => un (evalMF K A ρ a) fun va => call evR K A "rotate_euler" va [.sc φ, .sc θ, .sc ψ]
+  | .rotate_euler_ord o φ θ ψ a =>
+    un (evalMF K A ρ a) fun va => call evR K A "rotate_euler" va [.sc φ, .sc θ, .sc ψ, .str o.str]
+  | .rotate_nautical yaw pitch roll a =>
+    un (evalMF K A ρ a) fun va => call evR K A "rotate_nautical" va [.sc yaw, .sc pitch, .sc roll]
+  | .rotate_quaternion u i j k a =>
+    un (evalMF K A ρ a) fun va => call evR K A "rotate_quaternion" va [.sc u, .sc i, .sc j, .sc k]
+  | .boostXg γ a => un (evalMF K A ρ a) fun va => call evR K A "boostX" va [.kw "gamma" γ]
+  | .boostYg γ a => un (evalMF K A ρ a) fun va => call evR K A "boostY" va [.kw "gamma" γ]
+  | .boostZg γ a => un (evalMF K A ρ a) fun va => call evR K A "boostZ" va [.kw "gamma" γ]
+  | .boostCM_of_p4 a b =>
+    bin (evalMF K A ρ a) (evalMF K A ρ b) fun va vb => call evR K A "boostCM_of_p4" va [.v vb]
+  | .boostCM_of_beta3 a b =>
+    bin (evalMF K A ρ a) (evalMF K A ρ b) fun va vb => call evR K A "boostCM_of_beta3" va [.v vb]
+  | .to_beta3 a => un (evalMF K A ρ a) fun va => call evR K A "to_beta3" va []
+  | .transform4D m a => un (evalMF K A ρ a) fun va => call evR K A "transform4D" va m.args
+  | .transform2D xx xy yx yy a =>
+    un (evalMF K A ρ a) fun va => call evR K A "transform2D" va [.sc xx, .sc xy, .sc yx, .sc yy]
+  | .transform3D xx xy xz yx yy yz zx zy zz a =>
+    un (evalMF K A ρ a) fun va =>
+      call evR K A "transform3D" va [.sc xx, .sc xy, .sc xz, .sc yx, .sc yy, .sc yz, .sc zx, .sc zy, .sc zz]
+  | .proj2 az a => un (evalMF K A ρ a) fun va => call evR K A (convName2 az) va []
+  | .proj3 az l a => un (evalMF K A ρ a) fun va => call evR K A (convName az l) va []
+
+/-- **the specification**, on Cartesian component lists only -/
+noncomputable def evalSF (ρS : Nat → List ℝ) : F → List ℝ
+  | .var i => ρS i
+  | .add a b => List.zipWith (· + ·) (evalSF ρS a) (evalSF ρS b)
+  | .sub a b => List.zipWith (· - ·) (evalSF ρS a) (evalSF ρS b)
+  | .scale k a => (evalSF ρS a).map (k * ·)
+  | .unit a => (evalSF ρS a).map (fun x => 1 / normL (evalSF ρS a) * x)
+  | .rotateZ ang a => onPlanar (rotZ2 ang) (evalSF ρS a)
+  | .rotateX ang a => onSpatial (rotX ang) (evalSF ρS a)
+  | .rotateY ang a => onSpatial (rotY ang) (evalSF ρS a)
+  | .cross a b => crossL (evalSF ρS a) (evalSF ρS b)
+  | .boostX β a => on4 (bXβ β) (evalSF ρS a)
+  | .boostY β a => on4 (bYβ β) (evalSF ρS a)
+  | .boostZ β a => on4 (bZβ β) (evalSF ρS a)
+  | .boost_p4 a b => bp4L (evalSF ρS a) (evalSF ρS b)
+  | .boost_beta3 a b => bβ3L (evalSF ρS a) (evalSF ρS b)
+  | .conv2 _ a => evalSF ρS a
+  | .conv3 _ _ a => evalSF ρS a
+  | .conv4 _ _ _ a => evalSF ρS a
+  | .to2D a => (evalSF ρS a).take 2
+  | .to3D a => (evalSF ρS a).take 3
+  | .to3D_kw l s a => embL l s (evalSF ρS a)
+  | .to4D_kw tm s a => embT tm s (evalSF ρS a)
+  | .rotate_axis ang a x => axisRotL (evalSF ρS x) ang (evalSF ρS a)
+  | .rotate_euler φ θ ψ a => onSpatial (eulerRot .zxz φ θ ψ) (evalSF ρS a)
+  | .rotate_euler_ord o φ θ ψ a => onSpatial (eulerRot o φ θ ψ) (evalSF ρS a)
+  | .rotate_nautical yaw pitch roll a => onSpatial (eulerRot .zyx roll pitch yaw) (evalSF ρS a)
+  | .rotate_quaternion u i j k a => onSpatial (quatRot u i j k) (evalSF ρS a)
+  | .boostXg γ a => on4 (bXγ γ) (evalSF ρS a)
+  | .boostYg γ a => on4 (bYγ γ) (evalSF ρS a)
+  | .boostZg γ a => on4 (bZγ γ) (evalSF ρS a)
+  | .boostCM_of_p4 a b => bcm4L (evalSF ρS a) (evalSF ρS b)
+  | .boostCM_of_beta3 a b => bcm3L (evalSF ρS a) (evalSF ρS b)
+  | .to_beta3 a => beta3L (evalSF ρS a)
+  | .transform4D m a => on4 m.ap (evalSF ρS a)
+  | .transform2D xx xy yx yy a => onPlanar (C12M.mat2 xx xy yx yy) (evalSF ρS a)
+  | .transform3D xx xy xz yx yy yz zx zy zz a => onSpatial (C12M.mat3 xx xy xz yx yy yz zx zy zz) (evalSF ρS a)
+  | .proj2 _ a => (evalSF ρS a).take 2
+  | .proj3 _ _ a => (evalSF ρS a).take 3
+
+/-- every subexpression's specified value is generic in its dimension, the expression is well-dimensioned (conditions on
+the lengths of the specified values), and the parameters are in range (`|β| < 1`, `1 ≤ |γ|`, `0 < θ < π`, `0 ≤ τ`,
+`|β⃗| < 1`, unit quaternion) -/
+def GenericAllF (ρS : Nat → List ℝ) : F → Prop
+  | .var i => Generic (ρS i)
+  | .add a b => (GenericAllF ρS a ∧ GenericAllF ρS b) ∧ (evalSF ρS a).length = (evalSF ρS b).length ∧
+      Generic (evalSF ρS (.add a b))
+  | .sub a b => (GenericAllF ρS a ∧ GenericAllF ρS b) ∧ (evalSF ρS a).length = (evalSF ρS b).length ∧
+      Generic (evalSF ρS (.sub a b))
+  | .scale k a => GenericAllF ρS a ∧ True ∧ Generic (evalSF ρS (.scale k a))
+  | .unit a => GenericAllF ρS a ∧ True ∧ Generic (evalSF ρS (.unit a))
+  | .rotateZ ang a => GenericAllF ρS a ∧ True ∧ Generic (evalSF ρS (.rotateZ ang a))
+  | .rotateX ang a => GenericAllF ρS a ∧ 3 ≤ (evalSF ρS a).length ∧ Generic (evalSF ρS (.rotateX ang a))
+  | .rotateY ang a => GenericAllF ρS a ∧ 3 ≤ (evalSF ρS a).length ∧ Generic (evalSF ρS (.rotateY ang a))
+  | .cross a b => (GenericAllF ρS a ∧ GenericAllF ρS b) ∧
+      ((evalSF ρS a).length = 3 ∧ (evalSF ρS b).length = 3) ∧ Generic (evalSF ρS (.cross a b))
+  | .boostX β a => GenericAllF ρS a ∧ ((evalSF ρS a).length = 4 ∧ |β| < 1) ∧ Generic (evalSF ρS (.boostX β a))
+  | .boostY β a => GenericAllF ρS a ∧ ((evalSF ρS a).length = 4 ∧ |β| < 1) ∧ Generic (evalSF ρS (.boostY β a))
+  | .boostZ β a => GenericAllF ρS a ∧ ((evalSF ρS a).length = 4 ∧ |β| < 1) ∧ Generic (evalSF ρS (.boostZ β a))
+  | .boost_p4 a b => (GenericAllF ρS a ∧ GenericAllF ρS b) ∧
+      ((evalSF ρS a).length = 4 ∧ (evalSF ρS b).length = 4) ∧ Generic (evalSF ρS (.boost_p4 a b))
+  | .boost_beta3 a b => (GenericAllF ρS a ∧ GenericAllF ρS b) ∧
+      ((evalSF ρS a).length = 4 ∧ SubLum (evalSF ρS b)) ∧ Generic (evalSF ρS (.boost_beta3 a b))
+  | .conv2 az a => GenericAllF ρS a ∧ (evalSF ρS a).length = 2 ∧ Generic (evalSF ρS (.conv2 az a))
+  | .conv3 az l a => GenericAllF ρS a ∧ (evalSF ρS a).length = 3 ∧ Generic (evalSF ρS (.conv3 az l a))
+  | .conv4 az l tm a => GenericAllF ρS a ∧ (evalSF ρS a).length = 4 ∧ Generic (evalSF ρS (.conv4 az l tm a))
+  | .to2D a => GenericAllF ρS a ∧ True ∧ Generic (evalSF ρS (.to2D a))
+  | .to3D a => GenericAllF ρS a ∧ 3 ≤ (evalSF ρS a).length ∧ Generic (evalSF ρS (.to3D a))
+  | .to3D_kw l s a => GenericAllF ρS a ∧ ((evalSF ρS a).length = 2 ∧ LonParamOK l s) ∧
+      Generic (evalSF ρS (.to3D_kw l s a))
+  | .to4D_kw tm s a => GenericAllF ρS a ∧ ((evalSF ρS a).length = 3 ∧ TmpParamOK tm s) ∧
+      Generic (evalSF ρS (.to4D_kw tm s a))
+  | .rotate_axis ang a x => (GenericAllF ρS a ∧ GenericAllF ρS x) ∧
+      (3 ≤ (evalSF ρS a).length ∧ (evalSF ρS x).length = 3) ∧ Generic (evalSF ρS (.rotate_axis ang a x))
+  | .rotate_euler φ θ ψ a => GenericAllF ρS a ∧ 3 ≤ (evalSF ρS a).length ∧ Generic (evalSF ρS (.rotate_euler φ θ ψ a))
+  | .rotate_euler_ord o φ θ ψ a => GenericAllF ρS a ∧ 3 ≤ (evalSF ρS a).length ∧
+      Generic (evalSF ρS (.rotate_euler_ord o φ θ ψ a))
+  | .rotate_nautical yaw pitch roll a => GenericAllF ρS a ∧ 3 ≤ (evalSF ρS a).length ∧
+      Generic (evalSF ρS (.rotate_nautical yaw pitch roll a))
+  | .rotate_quaternion u i j k a => GenericAllF ρS a ∧
+      (3 ≤ (evalSF ρS a).length ∧ u ^ 2 + i ^ 2 + j ^ 2 + k ^ 2 = 1) ∧ Generic (evalSF ρS (.rotate_quaternion u i j k a))
+  | .boostXg γ a => GenericAllF ρS a ∧ ((evalSF ρS a).length = 4 ∧ 1 ≤ |γ|) ∧ Generic (evalSF ρS (.boostXg γ a))
+  | .boostYg γ a => GenericAllF ρS a ∧ ((evalSF ρS a).length = 4 ∧ 1 ≤ |γ|) ∧ Generic (evalSF ρS (.boostYg γ a))
+  | .boostZg γ a => GenericAllF ρS a ∧ ((evalSF ρS a).length = 4 ∧ 1 ≤ |γ|) ∧ Generic (evalSF ρS (.boostZg γ a))
+  | .boostCM_of_p4 a b => (GenericAllF ρS a ∧ GenericAllF ρS b) ∧
+      ((evalSF ρS a).length = 4 ∧ (evalSF ρS b).length = 4) ∧ Generic (evalSF ρS (.boostCM_of_p4 a b))
+  | .boostCM_of_beta3 a b => (GenericAllF ρS a ∧ GenericAllF ρS b) ∧
+      ((evalSF ρS a).length = 4 ∧ SubLum (evalSF ρS b)) ∧ Generic (evalSF ρS (.boostCM_of_beta3 a b))
+  | .to_beta3 a => GenericAllF ρS a ∧ (evalSF ρS a).length = 4 ∧ Generic (evalSF ρS (.to_beta3 a))
+  | .transform4D m a => GenericAllF ρS a ∧ (evalSF ρS a).length = 4 ∧ Generic (evalSF ρS (.transform4D m a))
+  | .transform2D xx xy yx yy a => GenericAllF ρS a ∧ (evalSF ρS a).length = 2 ∧
+      Generic (evalSF ρS (.transform2D xx xy yx yy a))
+  | .transform3D xx xy xz yx yy yz zx zy zz a => GenericAllF ρS a ∧ (evalSF ρS a).length = 3 ∧
+      Generic (evalSF ρS (.transform3D xx xy xz yx yy yz zx zy zz a))
+  | .proj2 az a => GenericAllF ρS a ∧ True ∧ Generic (evalSF ρS (.proj2 az a))
+  | .proj3 az l a => GenericAllF ρS a ∧ (evalSF ρS a).length = 4 ∧ Generic (evalSF ρS (.proj3 az l a))
+
+theorem genericAllF_self {ρS : Nat → List ℝ} {e : F} (h : GenericAllF ρS e) : Generic (evalSF ρS e) := by
+  cases e <;> first | exact h | exact h.2.2
+
+/-! ## 3. MAIN THEOREM -/
+
+/-- **coordinate independence of every generic expression of the extended language**: the model run succeeds, the result
+satisfies the invariant `Good` (well-formed, stored coordinates in range, not stored at a pole), and it denotes the
+specified value — whatever coordinate systems, flavors and backends the variables are stored in -/
+theorem c01f_eval (K : Consts ℝ) (A : Arith ℝ) (hK : K.negOne = -1) (ρ : Nat → Vec ℝ) (ρS : Nat → List ℝ)
+    (hρ : ∀ i, Good (ρ i)) (hS : ∀ i, denote (ρ i) = some (ρS i)) (e : F) (hg : GenericAllF ρS e) :
+    ∃ v, evalMF K A ρ e = .ok v ∧ Good v ∧ denote v = some (evalSF ρS e) := by
+  induction e with
+  | var i => exact ⟨ρ i, rfl, hρ i, hS i⟩
+  | add a b iha ihb =>
+    obtain ⟨⟨ga, gb⟩, hl, gr⟩ := hg
+    obtain ⟨va, ea, ha, da⟩ := iha ga
+    obtain ⟨vb, eb, hb, db⟩ := ihb gb
+    obtain ⟨r, hc, hr, hd⟩ := bin_lift (fun v w => call evR K A "add" v [.v w]) (List.zipWith (· + ·)) hl
+      (by rw [List.length_zipWith, hl, min_self])
+      (fun h2 h2' _ _ _ => add2_case K A h2 h2' da db) (fun h3 h3' g g' g'' => add_case K A h3 h3' da db g g' g'')
+      (fun h4 h4' g g' g'' => add4_case K A h4 h4' da db g g' g'') ha hb da db (genericAllF_self ga)
+      (genericAllF_self gb) gr
+    exact ⟨r, bin_ok ea eb hc, hr, hd⟩
+  | sub a b iha ihb =>
+    obtain ⟨⟨ga, gb⟩, hl, gr⟩ := hg
+    obtain ⟨va, ea, ha, da⟩ := iha ga
+    obtain ⟨vb, eb, hb, db⟩ := ihb gb
+    obtain ⟨r, hc, hr, hd⟩ := bin_lift (fun v w => call evR K A "subtract" v [.v w]) (List.zipWith (· - ·)) hl
+      (by rw [List.length_zipWith, hl, min_self])
+      (fun h2 h2' _ _ _ => sub2_case K A h2 h2' da db) (fun h3 h3' g g' g'' => sub_case K A h3 h3' da db g g' g'')
+      (fun h4 h4' g g' g'' => sub4_case K A h4 h4' da db g g' g'') ha hb da db (genericAllF_self ga)
+      (genericAllF_self gb) gr
+    exact ⟨r, bin_ok ea eb hc, hr, hd⟩
+  | scale k a iha =>
+    obtain ⟨ga, -, gr⟩ := hg
+    obtain ⟨va, ea, ha, da⟩ := iha ga
+    obtain ⟨r, hc, hr, hd⟩ := un_lift (fun v => call evR K A "scale" v [.sc k]) (fun p => p.map (k * ·))
+      (List.length_map _)
+      (fun h2 _ _ => scale2_case K A k h2 da) (fun h3 g g' => scale_case K A k h3 da g g')
+      (fun h4 g g' => scale4_case K A k h4 da g g') ha da (genericAllF_self ga) gr
+    exact ⟨r, un_ok ea hc, hr, hd⟩
+  | unit a iha =>
+    obtain ⟨ga, -, gr⟩ := hg
+    obtain ⟨va, ea, ha, da⟩ := iha ga
+    obtain ⟨r, hc, hr, hd⟩ := un_lift (fun v => call evR K A "unit" v []) (fun p => p.map (fun x => 1 / normL p * x))
+      (List.length_map _)
+      (fun h2 g _ => unit2_case K A h2 da g) (fun h3 g g' => unit_case K A h3 da g g')
+      (fun h4 g g' => unit4_case K A h4 da g g') ha da (genericAllF_self ga) gr
+    exact ⟨r, un_ok ea hc, hr, hd⟩
+  | rotateZ ang a iha =>
+    obtain ⟨ga, -, gr⟩ := hg
+    obtain ⟨va, ea, ha, da⟩ := iha ga
+    obtain ⟨r, hc, hr, hd⟩ := un_lift (fun v => call evR K A "rotateZ" v [.sc ang]) (onPlanar (rotZ2 ang))
+      (onPlanar_length _ _)
+      (fun h2 _ _ => rotateZ2_case K A ang h2 da)
+      (fun h3 g g' => by
+        obtain ⟨x, y, z, e, -⟩ := id g
+        rw [e] at da g g' ⊢
+        exact rotateZ_case K A ang h3 da g g')
+      (fun h4 g g' => by
+        obtain ⟨x, y, z, t, e, -⟩ := id g
+        rw [e] at da g g' ⊢
+        exact rotateZ4_case K A ang h4 da g g') ha da (genericAllF_self ga) gr
+    exact ⟨r, un_ok ea hc, hr, hd⟩
+  | rotateX ang a iha =>
+    obtain ⟨ga, hl, gr⟩ := hg
+    obtain ⟨va, ea, ha, da⟩ := iha ga
+    obtain ⟨r, hc, hr, hd⟩ := un_lift (fun v => call evR K A "rotateX" v [.sc ang]) (onSpatial (rotX ang))
+      (onSpatial_length _ _)
+      (fun _ g _ => by obtain ⟨x, y, e, -⟩ := g; rw [e] at hl; simp at hl)
+      (fun h3 g g' => rotateX_case K A ang h3 da g g') (fun h4 g g' => rotateX4_case K A ang h4 da g g')
+      ha da (genericAllF_self ga) gr
+    exact ⟨r, un_ok ea hc, hr, hd⟩
+  | rotateY ang a iha =>
+    obtain ⟨ga, hl, gr⟩ := hg
+    obtain ⟨va, ea, ha, da⟩ := iha ga
+    obtain ⟨r, hc, hr, hd⟩ := un_lift (fun v => call evR K A "rotateY" v [.sc ang]) (onSpatial (rotY ang))
+      (onSpatial_length _ _)
+      (fun _ g _ => by obtain ⟨x, y, e, -⟩ := g; rw [e] at hl; simp at hl)
+      (fun h3 g g' => rotateY_case K A ang h3 da g g') (fun h4 g g' => rotateY4_case K A ang h4 da g g')
+      ha da (genericAllF_self ga) gr
+    exact ⟨r, un_ok ea hc, hr, hd⟩
+  | cross a b iha ihb =>
+    obtain ⟨⟨ga, gb⟩, ⟨hla, hlb⟩, gr⟩ := hg
+    obtain ⟨va, ea, ha, da⟩ := iha ga
+    obtain ⟨vb, eb, hb, db⟩ := ihb gb
+    have g₁ := generic_len3 (genericAllF_self ga) hla
+    have g₂ := generic_len3 (genericAllF_self gb) hlb
+    have g₃ : Generic3 (crossL (evalSF ρS a) (evalSF ρS b)) := by
+      obtain ⟨x₁, y₁, z₁, e₁, -⟩ := id g₁
+      obtain ⟨x₂, y₂, z₂, e₂, -⟩ := id g₂
+      refine generic_len3 gr ?_
+      show (crossL (evalSF ρS a) (evalSF ρS b)).length = 3
+      rw [e₁, e₂]; rfl
+    obtain ⟨r, hc, hr, hd⟩ := cross_case K A (good_to3 ha da hla) (good_to3 hb db hlb) da db g₁ g₂ g₃
+    exact ⟨r, bin_ok ea eb hc, good_of3 hr, hd⟩
+  | boostX β a iha =>
+    obtain ⟨ga, ⟨hl, hβ⟩, gr⟩ := hg
+    obtain ⟨va, ea, ha, da⟩ := iha ga
+    obtain ⟨r, hc, hr, hd⟩ := boostX4_case K A β hβ (good_to4 ha da hl) da (generic_len4 (genericAllF_self ga) hl)
+      (generic_len4 gr (by show (on4 _ _).length = 4; rw [on4_length, hl]))
+    exact ⟨r, un_ok ea hc, good_of4 hr, hd⟩
+  | boostY β a iha =>
+    obtain ⟨ga, ⟨hl, hβ⟩, gr⟩ := hg
+    obtain ⟨va, ea, ha, da⟩ := iha ga
+    obtain ⟨r, hc, hr, hd⟩ := boostY4_case K A β hβ (good_to4 ha da hl) da (generic_len4 (genericAllF_self ga) hl)
+      (generic_len4 gr (by show (on4 _ _).length = 4; rw [on4_length, hl]))
+    exact ⟨r, un_ok ea hc, good_of4 hr, hd⟩
+  | boostZ β a iha =>
+    obtain ⟨ga, ⟨hl, hβ⟩, gr⟩ := hg
+    obtain ⟨va, ea, ha, da⟩ := iha ga
+    obtain ⟨r, hc, hr, hd⟩ := boostZ4_case K A β hβ (good_to4 ha da hl) da (generic_len4 (genericAllF_self ga) hl)
+      (generic_len4 gr (by show (on4 _ _).length = 4; rw [on4_length, hl]))
+    exact ⟨r, un_ok ea hc, good_of4 hr, hd⟩
+  | boost_p4 a b iha ihb =>
+    obtain ⟨⟨ga, gb⟩, ⟨hla, hlb⟩, gr⟩ := hg
+    obtain ⟨va, ea, ha, da⟩ := iha ga
+    obtain ⟨vb, eb, hb, db⟩ := ihb gb
+    have g₁ := generic_len4 (genericAllF_self ga) hla
+    have g₂ := generic_len4 (genericAllF_self gb) hlb
+    have g₃ : Generic4 (bp4L (evalSF ρS a) (evalSF ρS b)) := by
+      obtain ⟨x₁, y₁, z₁, t₁, e₁, -⟩ := id g₁
+      obtain ⟨x₂, y₂, z₂, t₂, e₂, -⟩ := id g₂
+      refine generic_len4 gr ?_
+      show (bp4L (evalSF ρS a) (evalSF ρS b)).length = 4
+      rw [e₁, e₂]; rfl
+    obtain ⟨r, hc, hr, hd⟩ := boost_p4_case K A (good_to4 ha da hla) (good_to4 hb db hlb) da db g₁ g₂ g₃
+    exact ⟨r, bin_ok ea eb hc, good_of4 hr, hd⟩
+  | boost_beta3 a b iha ihb =>
+    obtain ⟨⟨ga, gb⟩, ⟨hla, hsub⟩, gr⟩ := hg
+    obtain ⟨va, ea, ha, da⟩ := iha ga
+    obtain ⟨vb, eb, hb, db⟩ := ihb gb
+    have hlb : (evalSF ρS b).length = 3 := by
+      revert hsub
+      generalize evalSF ρS b = q
+      intro hsub
+      match q, hsub with
+      | [_, _, _], _ => rfl
+    have g₁ := generic_len4 (genericAllF_self ga) hla
+    have g₂ := generic_len3 (genericAllF_self gb) hlb
+    have g₃ : Generic4 (bβ3L (evalSF ρS a) (evalSF ρS b)) := by
+      obtain ⟨x₁, y₁, z₁, t₁, e₁, -⟩ := id g₁
+      obtain ⟨x₂, y₂, z₂, e₂, -⟩ := id g₂
+      refine generic_len4 gr ?_
+      show (bβ3L (evalSF ρS a) (evalSF ρS b)).length = 4
+      rw [e₁, e₂]; rfl
+    obtain ⟨r, hc, hr, hd⟩ := boost_beta3_case K A (good_to4 ha da hla) (good_to3 hb db hlb) da db g₁ g₂ hsub g₃
+    exact ⟨r, bin_ok ea eb hc, good_of4 hr, hd⟩
+  | conv2 az a iha =>
+    obtain ⟨ga, hl, gr⟩ := hg
+    obtain ⟨va, ea, ha, da⟩ := iha ga
+    obtain ⟨r, hc, hr, hd⟩ := conv2_case K A az (good_to2 ha da hl) da
+    exact ⟨r, un_ok ea hc, good_of2 hr, hd⟩
+  | conv3 az l a iha =>
+    obtain ⟨ga, hl, gr⟩ := hg
+    obtain ⟨va, ea, ha, da⟩ := iha ga
+    obtain ⟨r, hc, hr, hd⟩ := conv_case K A az l (good_to3 ha da hl) da (generic_len3 (genericAllF_self ga) hl)
+    exact ⟨r, un_ok ea hc, good_of3 hr, hd⟩
+  | conv4 az l tm a iha =>
+    obtain ⟨ga, hl, gr⟩ := hg
+    obtain ⟨va, ea, ha, da⟩ := iha ga
+    obtain ⟨r, hc, hr, hd⟩ := conv4_case K A az l tm (good_to4 ha da hl) da (generic_len4 (genericAllF_self ga) hl)
+    exact ⟨r, un_ok ea hc, good_of4 hr, hd⟩
+  | to2D a iha =>
+    obtain ⟨ga, -, gr⟩ := hg
+    obtain ⟨va, ea, ha, da⟩ := iha ga
+    obtain ⟨r, hc, hr, hd⟩ := to2D_case K A ha da
+    exact ⟨r, un_ok ea hc, good_of2 hr, hd⟩
+  | to3D a iha =>
+    obtain ⟨ga, hl, gr⟩ := hg
+    obtain ⟨va, ea, ha, da⟩ := iha ga
+    obtain ⟨r, hc, hr, hd⟩ := to3D_case K A ha da hl
+    exact ⟨r, un_ok ea hc, good_of3 hr, hd⟩
+  | to3D_kw l s a iha =>
+    obtain ⟨ga, ⟨hl, hs⟩, gr⟩ := hg
+    obtain ⟨va, ea, ha, da⟩ := iha ga
+    obtain ⟨r, hc, hr, hd⟩ := to3D_kw_case K A l s hs (good_to2 ha da hl) da
+    exact ⟨r, un_ok ea hc, good_of3 hr, hd⟩
+  | to4D_kw tm s a iha =>
+    obtain ⟨ga, ⟨hl, hs⟩, gr⟩ := hg
+    obtain ⟨va, ea, ha, da⟩ := iha ga
+    obtain ⟨r, hc, hr, hd⟩ := to4D_kw_case K A tm s hs (good_to3 ha da hl) da
+    exact ⟨r, un_ok ea hc, good_of4 hr, hd⟩
+  | rotate_axis ang a x iha ihx =>
+    obtain ⟨⟨ga, gx⟩, ⟨hla, hlx⟩, gr⟩ := hg
+    obtain ⟨va, ea, ha, da⟩ := iha ga
+    obtain ⟨vx, ex, hx, dx⟩ := ihx gx
+    obtain ⟨r, hc, hr, hd⟩ := rotate_axis_case K A ang ha (good_to3 hx dx hlx) da dx (genericAllF_self ga)
+      (generic_len3 (genericAllF_self gx) hlx) hla gr
+    exact ⟨r, bin_ok ea ex hc, hr, hd⟩
+  | rotate_euler φ θ ψ a iha =>
+    obtain ⟨ga, hl, gr⟩ := hg
+    obtain ⟨va, ea, ha, da⟩ := iha ga
+    obtain ⟨r, hc, hr, hd⟩ := rotate_euler_case K A φ θ ψ ha da (genericAllF_self ga) hl gr
+    exact ⟨r, un_ok ea hc, hr, hd⟩
+  | rotate_euler_ord o φ θ ψ a iha =>
+    obtain ⟨ga, hl, gr⟩ := hg
+    obtain ⟨va, ea, ha, da⟩ := iha ga
+    obtain ⟨r, hc, hr, hd⟩ := rotate_euler_ord_case K A o φ θ ψ ha da (genericAllF_self ga) hl gr
+    exact ⟨r, un_ok ea hc, hr, hd⟩
+  | rotate_nautical yaw pitch roll a iha =>
+    obtain ⟨ga, hl, gr⟩ := hg
+    obtain ⟨va, ea, ha, da⟩ := iha ga
+    obtain ⟨r, hc, hr, hd⟩ := rotate_nautical_case K A yaw pitch roll ha da (genericAllF_self ga) hl gr
+    exact ⟨r, un_ok ea hc, hr, hd⟩
+  | rotate_quaternion u i j k a iha =>
+    obtain ⟨ga, ⟨hl, hq⟩, gr⟩ := hg
+    obtain ⟨va, ea, ha, da⟩ := iha ga
+    obtain ⟨r, hc, hr, hd⟩ := rotate_quaternion_case K A u i j k hq ha da (genericAllF_self ga) hl gr
+    exact ⟨r, un_ok ea hc, hr, hd⟩
+  | boostXg γ a iha =>
+    obtain ⟨ga, ⟨hl, hγ⟩, gr⟩ := hg
+    obtain ⟨va, ea, ha, da⟩ := iha ga
+    obtain ⟨r, hc, hr, hd⟩ := boostXg4_case K A γ hγ (good_to4 ha da hl) da (generic_len4 (genericAllF_self ga) hl)
+      (generic_len4 gr (by show (on4 _ _).length = 4; rw [on4_length, hl]))
+    exact ⟨r, un_ok ea hc, good_of4 hr, hd⟩
+  | boostYg γ a iha =>
+    obtain ⟨ga, ⟨hl, hγ⟩, gr⟩ := hg
+    obtain ⟨va, ea, ha, da⟩ := iha ga
+    obtain ⟨r, hc, hr, hd⟩ := boostYg4_case K A γ hγ (good_to4 ha da hl) da (generic_len4 (genericAllF_self ga) hl)
+      (generic_len4 gr (by show (on4 _ _).length = 4; rw [on4_length, hl]))
+    exact ⟨r, un_ok ea hc, good_of4 hr, hd⟩
+  | boostZg γ a iha =>
+    obtain ⟨ga, ⟨hl, hγ⟩, gr⟩ := hg
+    obtain ⟨va, ea, ha, da⟩ := iha ga
+    obtain ⟨r, hc, hr, hd⟩ := boostZg4_case K A γ hγ (good_to4 ha da hl) da (generic_len4 (genericAllF_self ga) hl)
+      (generic_len4 gr (by show (on4 _ _).length = 4; rw [on4_length, hl]))
+    exact ⟨r, un_ok ea hc, good_of4 hr, hd⟩
+  | boostCM_of_p4 a b iha ihb =>
+    obtain ⟨⟨ga, gb⟩, ⟨hla, hlb⟩, gr⟩ := hg
+    obtain ⟨va, ea, ha, da⟩ := iha ga
+    obtain ⟨vb, eb, hb, db⟩ := ihb gb
+    have g₁ := generic_len4 (genericAllF_self ga) hla
+    have g₂ := generic_len4 (genericAllF_self gb) hlb
+    have g₃ : Generic4 (bcm4L (evalSF ρS a) (evalSF ρS b)) := by
+      obtain ⟨x₁, y₁, z₁, t₁, e₁, -⟩ := id g₁
+      obtain ⟨x₂, y₂, z₂, t₂, e₂, -⟩ := id g₂
+      refine generic_len4 gr ?_
+      show (bcm4L (evalSF ρS a) (evalSF ρS b)).length = 4
+      rw [e₁, e₂]; rfl
+    obtain ⟨r, hc, hr, hd⟩ := boostCM_of_p4_case K A hK (good_to4 ha da hla) (good_to4 hb db hlb) da db g₁ g₂ g₃
+    exact ⟨r, bin_ok ea eb hc, good_of4 hr, hd⟩
+  | boostCM_of_beta3 a b iha ihb =>
+    obtain ⟨⟨ga, gb⟩, ⟨hla, hsub⟩, gr⟩ := hg
+    obtain ⟨va, ea, ha, da⟩ := iha ga
+    obtain ⟨vb, eb, hb, db⟩ := ihb gb
+    have hlb : (evalSF ρS b).length = 3 := by
+      revert hsub
+      generalize evalSF ρS b = q
+      intro hsub
+      match q, hsub with
+      | [_, _, _], _ => rfl
+    have g₁ := generic_len4 (genericAllF_self ga) hla
+    have g₂ := generic_len3 (genericAllF_self gb) hlb
+    have g₃ : Generic4 (bcm3L (evalSF ρS a) (evalSF ρS b)) := by
+      obtain ⟨x₁, y₁, z₁, t₁, e₁, -⟩ := id g₁
+      obtain ⟨x₂, y₂, z₂, e₂, -⟩ := id g₂
+      refine generic_len4 gr ?_
+      show (bcm3L (evalSF ρS a) (evalSF ρS b)).length = 4
+      rw [e₁, e₂]; rfl
+    obtain ⟨r, hc, hr, hd⟩ := boostCM_of_beta3_case K A hK (good_to4 ha da hla) (good_to3 hb db hlb) da db g₁ g₂ hsub g₃
+    exact ⟨r, bin_ok ea eb hc, good_of4 hr, hd⟩
+  | to_beta3 a iha =>
+    obtain ⟨ga, hl, gr⟩ := hg
+    obtain ⟨va, ea, ha, da⟩ := iha ga
+    obtain ⟨r, hc, hr, hd⟩ := to_beta3_case K A (good_to4 ha da hl) da (generic_len4 (genericAllF_self ga) hl)
+    exact ⟨r, un_ok ea hc, good_of3 hr, hd⟩
+  | transform4D m a iha =>
+    obtain ⟨ga, hl, gr⟩ := hg
+    obtain ⟨va, ea, ha, da⟩ := iha ga
+    obtain ⟨r, hc, hr, hd⟩ := transform4D_case K A m (good_to4 ha da hl) da (generic_len4 (genericAllF_self ga) hl)
+    exact ⟨r, un_ok ea hc, good_of4 hr, hd⟩
+  | transform2D xx xy yx yy a iha =>
+    obtain ⟨ga, hl, gr⟩ := hg
+    obtain ⟨va, ea, ha, da⟩ := iha ga
+    obtain ⟨r, hc, hr, hd⟩ := transform2D_case K A xx xy yx yy (good_to2 ha da hl) da
+    exact ⟨r, un_ok ea hc, good_of2 hr, hd⟩
+  | transform3D xx xy xz yx yy yz zx zy zz a iha =>
+    obtain ⟨ga, hl, gr⟩ := hg
+    obtain ⟨va, ea, ha, da⟩ := iha ga
+    obtain ⟨r, hc, hr, hd⟩ := transform3D_case K A xx xy xz yx yy yz zx zy zz (good_to3 ha da hl) da
+      (generic_len3 (genericAllF_self ga) hl)
+    exact ⟨r, un_ok ea hc, good_of3 hr, hd⟩
+  | proj2 az a iha =>
+    obtain ⟨ga, -, gr⟩ := hg
+    obtain ⟨va, ea, ha, da⟩ := iha ga
+    obtain ⟨r, hc, hr, hd⟩ := proj2_case K A az ha da
+    exact ⟨r, un_ok ea hc, good_of2 hr, hd⟩
+  | proj3 az l a iha =>
+    obtain ⟨ga, hl, gr⟩ := hg
+    obtain ⟨va, ea, ha, da⟩ := iha ga
+    obtain ⟨r, hc, hr, hd⟩ := proj3_case K A az l (good_to4 ha da hl) da (generic_len4 (genericAllF_self ga) hl)
+    exact ⟨r, un_ok ea hc, good_of3 hr, hd⟩
+
+/-! ## 4. COROLLARY: property C01 in its literal form -/
+
+/-- **C01 for whole computations over the extended language**: two environments holding THE SAME geometric vectors —
+variables of any dimension in any of the 2 / 6 / 12 storages, any flavors and backends — give results with the same
+denotation (namely the specified value), for every generic expression -/
+theorem c01f_indep (K : Consts ℝ) (A : Arith ℝ) (hK : K.negOne = -1) (ρ₁ ρ₂ : Nat → Vec ℝ)
+    (h₁ : ∀ i, Good (ρ₁ i)) (h₂ : ∀ i, Good (ρ₂ i)) (hd : ∀ i, denote (ρ₁ i) = denote (ρ₂ i)) (e : F)
+    (hg : GenericAllF (specEnv ρ₁) e) :
+    ∃ v₁ v₂, evalMF K A ρ₁ e = .ok v₁ ∧ evalMF K A ρ₂ e = .ok v₂ ∧ denote v₁ = denote v₂ ∧
+      denote v₁ = some (evalSF (specEnv ρ₁) e) := by
+  obtain ⟨v₁, e₁, -, d₁⟩ := c01f_eval K A hK ρ₁ (specEnv ρ₁) h₁ (denote_specEnvU h₁) e hg
+  obtain ⟨v₂, e₂, -, d₂⟩ :=
+    c01f_eval K A hK ρ₂ (specEnv ρ₁) h₂ (fun i => by rw [← hd i]; exact denote_specEnvU h₁ i) e hg
+  exact ⟨v₁, v₂, e₁, e₂, by rw [d₁, d₂], d₁⟩
+
+/-- the same as one equation between the two runs -/
+theorem c01f_indep_eq (K : Consts ℝ) (A : Arith ℝ) (hK : K.negOne = -1) (ρ₁ ρ₂ : Nat → Vec ℝ)
+    (h₁ : ∀ i, Good (ρ₁ i)) (h₂ : ∀ i, Good (ρ₂ i)) (hd : ∀ i, denote (ρ₁ i) = denote (ρ₂ i)) (e : F)
+    (hg : GenericAllF (specEnv ρ₁) e) :
+    (evalMF K A ρ₁ e).toOption.bind denote = (evalMF K A ρ₂ e).toOption.bind denote ∧
+      ((evalMF K A ρ₁ e).toOption.bind denote).isSome := by
+  obtain ⟨v₁, v₂, e₁, e₂, h, h'⟩ := c01f_indep K A hK ρ₁ ρ₂ h₁ h₂ hd e hg
+  rw [e₁, e₂]
+  refine ⟨h, ?_⟩
+  show (denote v₁).isSome = true
+  rw [h']; rfl
+
+/-! ## 5. Scalar expressions over the extended language -/
+
+/-- the momentum-only transverse variables -/
+inductive MomS | Et | Et2 | Mt | Mt2
+
+def MomS.name : MomS → String
+  | .Et => "Et" | .Et2 => "Et2" | .Mt => "Mt" | .Mt2 => "Mt2"
+
+/-- their specification on `(x, y, z, t)` (for the forward time-like generic vectors) -/
+noncomputable def mspec : MomS → ℝ → ℝ → ℝ → ℝ → ℝ
+  | .Et, x, y, z, t => sqrt (t ^ 2 * (x ^ 2 + y ^ 2) / (x ^ 2 + y ^ 2 + z ^ 2))
+  | .Et2, x, y, z, t => t ^ 2 * (x ^ 2 + y ^ 2) / (x ^ 2 + y ^ 2 + z ^ 2)
+  | .Mt, _, _, z, t => sqrt (t ^ 2 - z ^ 2)
+  | .Mt2, _, _, z, t => t ^ 2 - z ^ 2
+
+inductive SF : Type
+  | un (f : UnS4) (a : F)          -- the accessor-like properties of `C01E.SU`
+  | bi (f : BinS) (a b : F)        -- `dot deltaphi deltaeta deltaR2 deltaR deltaangle`
+  | abs (a : F)                    -- `abs(v)`
+  | sq (a : F)                     -- `v ** 2`
+  | mom (f : MomS) (a : F)         -- `Et Et2 Mt Mt2` of a 4D value of momentum flavor
+  | dRapPhi (a b : F)              -- `deltaRapidityPhi`
+  | dRapPhi2 (a b : F)             -- `deltaRapidityPhi2`
+
+noncomputable def evalMSF (K : Consts ℝ) (A : Arith ℝ) (ρ : Nat → Vec ℝ) : SF → Except Err (Res ℝ Prop)
+  | .un f a => unS (evalMF K A ρ a) fun va => call evR K A f.name va []
+  | .bi f a b => binS (evalMF K A ρ a) (evalMF K A ρ b) fun va vb => call evR K A f.name va [.v vb]
+  | .abs a => unS (evalMF K A ρ a) fun va => operator evR K A "abs" va []
+  | .sq a => unS (evalMF K A ρ a) fun va => operator evR K A "pow" va [.sc 2]
+  | .mom f a => unS (evalMF K A ρ a) fun va => call evR K A f.name va []
+  | .dRapPhi a b => binS (evalMF K A ρ a) (evalMF K A ρ b) fun va vb => call evR K A "deltaRapidityPhi" va [.v vb]
+  | .dRapPhi2 a b => binS (evalMF K A ρ a) (evalMF K A ρ b) fun va vb => call evR K A "deltaRapidityPhi2" va [.v vb]
+
+/-- `Δφ² + Δy²` of two four-vectors: `Δφ` the rectified difference of the azimuths, `y` the rapidity -/
+noncomputable def dRap2L : List ℝ → List ℝ → ℝ
+  | [x₁, y₁, z₁, t₁], [x₂, y₂, z₂, t₂] =>
+    (P.mod (P.arctan2 y₁ x₁ - P.arctan2 y₂ x₂ + π) (2 * π) - π) ^ 2
+      + (rapidityOf (x₁, y₁, z₁, t₁) - rapidityOf (x₂, y₂, z₂, t₂)) ^ 2
+  | _, _ => 0
+
+noncomputable def evalSSF (ρS : Nat → List ℝ) : SF → ℝ
+  | .un f a => unSpecL f (evalSF ρS a)
+  | .bi f a b => biSpecL f (evalSF ρS a) (evalSF ρS b)
+  | .abs a => C12M.normS (evalSF ρS a)
+  | .sq a => C12M.norm2S (evalSF ρS a)
+  | .mom f a => on4s (mspec f) (evalSF ρS a)
+  | .dRapPhi a b => sqrt (dRap2L (evalSF ρS a) (evalSF ρS b))
+  | .dRapPhi2 a b => dRap2L (evalSF ρS a) (evalSF ρS b)
+
+def GenericSF (ρS : Nat → List ℝ) : SF → Prop
+  | .un f a => GenericAllF ρS a ∧ f.dimOK (evalSF ρS a).length ∧ (f = .sp .phi → PhiOKU (evalSF ρS a))
+  | .bi f a b => (GenericAllF ρS a ∧ GenericAllF ρS b) ∧ (evalSF ρS a).length = (evalSF ρS b).length ∧
+      ((evalSF ρS a).length = 2 → f = .dot ∨ f = .deltaphi)
+  | .abs a => GenericAllF ρS a
+  | .sq a => GenericAllF ρS a
+  | .mom _ a => GenericAllF ρS a ∧ (evalSF ρS a).length = 4
+  | .dRapPhi a b => (GenericAllF ρS a ∧ GenericAllF ρS b) ∧ (evalSF ρS a).length = 4 ∧ (evalSF ρS b).length = 4
+  | .dRapPhi2 a b => (GenericAllF ρS a ∧ GenericAllF ρS b) ∧ (evalSF ρS a).length = 4 ∧ (evalSF ρS b).length = 4
+
+/-- the flavor (momentum or not) of a value is not part of its denotation: the momentum-only properties need the MODEL
+value to be of momentum flavor (for a variable: `(ρ i).ty.mom = true`) -/
+def MomOK (K : Consts ℝ) (A : Arith ℝ) (ρ : Nat → Vec ℝ) : SF → Prop
+  | .mom _ a => ∀ v, evalMF K A ρ a = .ok v → v.ty.mom = true
+  | _ => True
+
+theorem normOK_of_good {v : Vec ℝ} {p : List ℝ} (hv : Good v) (hd : denote v = some p) (hg : Generic p) :
+    C12M.NormOK v := by
+  rcases generic_length hg with hl | hl | hl
+  · obtain ⟨be, mom, az, a, b, rfl, hA⟩ := good2_cases (good_to2 hv hd hl)
+    exact canon2_of_azOK hA
+  · have h3 := good_to3 hv hd hl
+    obtain ⟨-, -, -, -, -, -, hC3, -, hS, -⟩ := generic_storage_ok h3 hd (generic_len3 hg hl)
+    obtain ⟨be, mom, az, l, a, b, c, rfl, -, -, -⟩ := good3_cases h3
+    exact ⟨hC3.1, hS⟩
+  · have h4 := good_to4 hv hd hl
+    have g4 := generic_len4 hg hl
+    obtain ⟨x, y, z, t, rfl, -⟩ := id g4
+    obtain ⟨-, hC3, -, -, hCt⟩ := facts4 h4 hd g4
+    obtain ⟨be, mom, az, l, tm, a, b, c, d, rfl, -, -, -, -⟩ := good4_cases h4
+    exact ⟨hC3.2, hCt⟩
+
+theorem mom_case (K : Consts ℝ) (A : Arith ℝ) (f : MomS) {va : Vec ℝ} {x y z t : ℝ} (ha : Good4 va)
+    (hmom : va.ty.mom = true) (da : denote va = some [x, y, z, t]) (ga : Generic4 [x, y, z, t]) :
+    call evR K A f.name va [] = .ok (.scalar (mspec f x y z t)) := by
+  obtain ⟨-, hC3, hT4, hS4, hCt⟩ := facts4 ha da ga
+  obtain ⟨g1, g2, g3, g4⟩ := (generic4_iff _ _ _ _).1 ga
+  have hp : 0 < x ^ 2 + y ^ 2 + z ^ 2 := by positivity
+  cases f
+  · exact c09m_acc_Et K A va ha.wf hmom ⟨hC3, hCt⟩ x y z t da hp g4.le
+  · exact c09m_acc_Et2 K A va ha.wf hmom ⟨hC3.2, hCt⟩ x y z t da hp
+  · exact c09m_acc_Mt K A va ha.wf hmom ⟨hT4, hCt⟩ x y z t da (by nlinarith [sq_nonneg x, sq_nonneg y])
+  · exact c09m_acc_Mt2 K A va ha.wf hmom ⟨hT4, hCt⟩ x y z t da
+
+theorem abs_lt_of_generic4 {x y z t : ℝ} (h : Generic4 [x, y, z, t]) : |z| < t := by
+  obtain ⟨g1, g2, g3, g4⟩ := (generic4_iff _ _ _ _).1 h
+  rw [abs_lt]
+  constructor <;> nlinarith [sq_nonneg x, sq_nonneg y, sq_nonneg (t + z), sq_nonneg (t - z)]
+
+theorem dRap_case (K : Consts ℝ) (A : Arith ℝ) {va vb : Vec ℝ} {x₁ y₁ z₁ t₁ x₂ y₂ z₂ t₂ : ℝ} (ha : Good4 va)
+    (hb : Good4 vb) (da : denote va = some [x₁, y₁, z₁, t₁]) (db : denote vb = some [x₂, y₂, z₂, t₂])
+    (ga : Generic4 [x₁, y₁, z₁, t₁]) (gb : Generic4 [x₂, y₂, z₂, t₂]) :
+    call evR K A "deltaRapidityPhi2" va [.v vb] =
+        .ok (.scalar (dRap2L [x₁, y₁, z₁, t₁] [x₂, y₂, z₂, t₂])) ∧
+    call evR K A "deltaRapidityPhi" va [.v vb] =
+        .ok (.scalar (sqrt (dRap2L [x₁, y₁, z₁, t₁] [x₂, y₂, z₂, t₂]))) := by
+  obtain ⟨-, -, -, -, hBa, -⟩ := generic_storage_ok4 ha da ga
+  obtain ⟨-, -, -, -, hBb, -⟩ := generic_storage_ok4 hb db gb
+  obtain ⟨⟨hra, -⟩, -⟩ := facts4 ha da ga
+  obtain ⟨⟨hrb, -⟩, -⟩ := facts4 hb db gb
+  obtain ⟨dphi, -, h2, h1, hphi⟩ := C12M.c12m_deltaRapidityPhi K A va vb ha.wf hb.wf ha.dim hb.dim hBa hBb
+    x₁ y₁ z₁ t₁ x₂ y₂ z₂ t₂ da db (abs_lt_of_generic4 ga) (abs_lt_of_generic4 gb)
+  have e := hphi hra hrb
+  subst e
+  exact ⟨h2, h1⟩
+
+/-- **scalar expressions over the extended language**: the model returns the specified scalar
+(`hA`: the model's test `other == 2` of `__pow__` succeeds on the literal `2`) -/
+theorem c01f_evalS (K : Consts ℝ) (A : Arith ℝ) (hK : K.negOne = -1) (hA : A.isTwo 2 = true) (ρ : Nat → Vec ℝ)
+    (ρS : Nat → List ℝ) (hρ : ∀ i, Good (ρ i)) (hS : ∀ i, denote (ρ i) = some (ρS i)) (s : SF)
+    (hg : GenericSF ρS s) (hm : MomOK K A ρ s) :
+    evalMSF K A ρ s = .ok (.scalar (evalSSF ρS s)) := by
+  cases s with
+  | un f a =>
+    obtain ⟨ga, hdim, hphi⟩ := hg
+    obtain ⟨va, ea, ha, da⟩ := c01f_eval K A hK ρ ρS hρ hS a ga
+    have g := genericAllF_self ga
+    simp only [evalMSF, evalSSF, ea, unS]
+    rcases generic_length g with hl | hl | hl
+    · have g2 := generic_len2 g hl
+      obtain ⟨x, y, e, -⟩ := id g2
+      rw [e] at da g2 hphi hdim ⊢
+      cases f with
+      | sp f' =>
+        have hp : f'.planar := by
+          rcases hdim with h | h
+          · exact h
+          · simp at h
+        exact un2_case K A f' hp (good_to2 ha da rfl) da g2 (fun e' => hphi (by rw [e']))
+      | _ => simp [UnS4.dimOK] at hdim
+    · have g3 := generic_len3 g hl
+      obtain ⟨x, y, z, e, -⟩ := id g3
+      rw [e] at da g3 hphi hdim ⊢
+      cases f with
+      | sp f' => exact un_case K A f' (good_to3 ha da rfl) da g3 (fun e' => hphi (by rw [e']))
+      | _ => simp [UnS4.dimOK] at hdim
+    · have g4 := generic_len4 g hl
+      obtain ⟨x, y, z, t, e, -⟩ := id g4
+      rw [e] at da g4 hphi ⊢
+      exact un4_case K A f (good_to4 ha da rfl) da g4 hphi
+  | bi f a b =>
+    obtain ⟨⟨ga, gb⟩, hl, h2D⟩ := hg
+    obtain ⟨va, ea, ha, da⟩ := c01f_eval K A hK ρ ρS hρ hS a ga
+    obtain ⟨vb, eb, hb, db⟩ := c01f_eval K A hK ρ ρS hρ hS b gb
+    have g₁ := genericAllF_self ga
+    have g₂ := genericAllF_self gb
+    simp only [evalMSF, evalSSF, ea, eb, binS]
+    rcases generic_length g₁ with hla | hla | hla
+    · have hlb : (evalSF ρS b).length = 2 := by rw [← hl, hla]
+      have g2a := generic_len2 g₁ hla
+      have g2b := generic_len2 g₂ hlb
+      have hf := h2D hla
+      obtain ⟨x₁, y₁, e₁, -⟩ := id g2a
+      obtain ⟨x₂, y₂, e₂, -⟩ := id g2b
+      rw [e₁] at da g2a ⊢
+      rw [e₂] at db g2b ⊢
+      exact bi2_case K A f hf (good_to2 ha da rfl) (good_to2 hb db rfl) da db g2a g2b
+    · have hlb : (evalSF ρS b).length = 3 := by rw [← hl, hla]
+      have g3a := generic_len3 g₁ hla
+      have g3b := generic_len3 g₂ hlb
+      obtain ⟨x₁, y₁, z₁, e₁, -⟩ := id g3a
+      obtain ⟨x₂, y₂, z₂, e₂, -⟩ := id g3b
+      rw [e₁] at da g3a ⊢
+      rw [e₂] at db g3b ⊢
+      exact bi_case K A f (good_to3 ha da rfl) (good_to3 hb db rfl) da db g3a g3b
+    · have hlb : (evalSF ρS b).length = 4 := by rw [← hl, hla]
+      have g4a := generic_len4 g₁ hla
+      have g4b := generic_len4 g₂ hlb
+      obtain ⟨x₁, y₁, z₁, t₁, e₁, -⟩ := id g4a
+      obtain ⟨x₂, y₂, z₂, t₂, e₂, -⟩ := id g4b
+      rw [e₁] at da g4a ⊢
+      rw [e₂] at db g4b ⊢
+      exact bi4_case K A f (good_to4 ha da rfl) (good_to4 hb db rfl) da db g4a g4b
+  | abs a =>
+    obtain ⟨va, ea, ha, da⟩ := c01f_eval K A hK ρ ρS hρ hS a hg
+    simp only [evalMSF, evalSSF, ea, unS]
+    exact C12M.c12m_abs K A va ha.1 (normOK_of_good ha da (genericAllF_self hg)) _ da
+  | sq a =>
+    obtain ⟨va, ea, ha, da⟩ := c01f_eval K A hK ρ ρS hρ hS a hg
+    simp only [evalMSF, evalSSF, ea, unS]
+    exact C12M.c12m_pow_two K A va ha.1
+      (C12M.norm2OK_of_normOK ha.1 (normOK_of_good ha da (genericAllF_self hg))) _ da 2 hA
+  | mom f a =>
+    obtain ⟨ga, hl⟩ := hg
+    obtain ⟨va, ea, ha, da⟩ := c01f_eval K A hK ρ ρS hρ hS a ga
+    have hmom : va.ty.mom = true := hm va ea
+    have g4 := generic_len4 (genericAllF_self ga) hl
+    obtain ⟨x, y, z, t, e, -⟩ := id g4
+    rw [e] at da g4
+    simp only [evalMSF, evalSSF, ea, unS, e, on4s]
+    exact mom_case K A f (good_to4 ha da rfl) hmom da g4
+  | dRapPhi a b =>
+    obtain ⟨⟨ga, gb⟩, hla, hlb⟩ := hg
+    obtain ⟨va, ea, ha, da⟩ := c01f_eval K A hK ρ ρS hρ hS a ga
+    obtain ⟨vb, eb, hb, db⟩ := c01f_eval K A hK ρ ρS hρ hS b gb
+    have g4a := generic_len4 (genericAllF_self ga) hla
+    have g4b := generic_len4 (genericAllF_self gb) hlb
+    obtain ⟨x₁, y₁, z₁, t₁, e₁, -⟩ := id g4a
+    obtain ⟨x₂, y₂, z₂, t₂, e₂, -⟩ := id g4b
+    rw [e₁] at da g4a
+    rw [e₂] at db g4b
+    simp only [evalMSF, evalSSF, ea, eb, binS, e₁, e₂]
+    exact (dRap_case K A (good_to4 ha da rfl) (good_to4 hb db rfl) da db g4a g4b).2
+  | dRapPhi2 a b =>
+    obtain ⟨⟨ga, gb⟩, hla, hlb⟩ := hg
+    obtain ⟨va, ea, ha, da⟩ := c01f_eval K A hK ρ ρS hρ hS a ga
+    obtain ⟨vb, eb, hb, db⟩ := c01f_eval K A hK ρ ρS hρ hS b gb
+    have g4a := generic_len4 (genericAllF_self ga) hla
+    have g4b := generic_len4 (genericAllF_self gb) hlb
+    obtain ⟨x₁, y₁, z₁, t₁, e₁, -⟩ := id g4a
+    obtain ⟨x₂, y₂, z₂, t₂, e₂, -⟩ := id g4b
+    rw [e₁] at da g4a
+    rw [e₂] at db g4b
+    simp only [evalMSF, evalSSF, ea, eb, binS, e₁, e₂]
+    exact (dRap_case K A (good_to4 ha da rfl) (good_to4 hb db rfl) da db g4a g4b).1
+
+/-- **C01 for scalar expressions over the extended language**: the same geometric vectors in any storages give the same
+number (for the momentum-only properties: both runs on values of momentum flavor) -/
+theorem c01f_indepS (K : Consts ℝ) (A : Arith ℝ) (hK : K.negOne = -1) (hA : A.isTwo 2 = true) (ρ₁ ρ₂ : Nat → Vec ℝ)
+    (h₁ : ∀ i, Good (ρ₁ i)) (h₂ : ∀ i, Good (ρ₂ i)) (hd : ∀ i, denote (ρ₁ i) = denote (ρ₂ i)) (s : SF)
+    (hg : GenericSF (specEnv ρ₁) s) (hm₁ : MomOK K A ρ₁ s) (hm₂ : MomOK K A ρ₂ s) :
+    evalMSF K A ρ₁ s = evalMSF K A ρ₂ s ∧ evalMSF K A ρ₁ s = .ok (.scalar (evalSSF (specEnv ρ₁) s)) := by
+  have e₁ := c01f_evalS K A hK hA ρ₁ (specEnv ρ₁) h₁ (denote_specEnvU h₁) s hg hm₁
+  have e₂ := c01f_evalS K A hK hA ρ₂ (specEnv ρ₁) h₂ (fun i => by rw [← hd i]; exact denote_specEnvU h₁ i) s hg hm₂
+  exact ⟨by rw [e₁, e₂], e₁⟩
 
 end C01F
 end VR
